@@ -12,29 +12,51 @@ else`, `return`), in the `Except Err` monad when the function reads dictionaries
 otherwise; Python `==` becomes Lean's Boolean `==`, `and/or/not` become `&& || !`.  Reading the generated file next to
 the Python is the intended review of this translator.
 
-Subset (everything else raises `Unsupported`, nothing is skipped silently):
-  statements   docstring, `pass`, `x = e`, `d["k"] = e` (d a local dictionary created by a literal in this function),
-               `if/elif/else`, `return e`; every path must end in a `return`
-  expressions  str / bool / None constants, tuples, `{"k": "v", ...}` literals, names of parameters and locals,
-               `d["k"]` (KeyError when missing), `==`, `!=`, `is None`, `is not None`, `in` / `not in` on literal
-               lists/tuples/sets of strings (or a module level constant holding one), `and`, `or`, `not`,
-               `a if c else b`
+Subset (everything else raises `Unsupported`, nothing is skipped silently; the full table with what is refused on
+purpose is in design.d/C19.md, every construct is run through Python and Lean by harness/pygen_selftest.py):
+  statements   docstring, `pass`, `x = e` (first at the top level, or in every branch of an `if`), `x += e` / `-=` / `|=`,
+               `d["k"] = e` (d a local dictionary created by a literal in this function), `if/elif/else`, `return e`
+               (every path must end in a `return`, except in functions declared `unit`), `raise Cls("…")` -> `throw`,
+               `with <declared context manager>:` (body in place), calls of declared log functions (dropped), calls of
+               declared actions, single statements pinned verbatim that stand for an action (`spec.stmts`),
+               `a, b = <opaque>` (names for atoms), `a, b = <list of strings>` (a `match`, the declared ValueError for
+               another length), locals of one branch (assigned and used inside it only), and four
+               shapes of `for`:
+                 over a literal list (unrolled) | `if c: return e` (List.find?) |
+                 flag with `break` and `else: flag = False` (List.any) | updates of one local (List.foldl)
+  expressions  str / bool / None / int constants, tuples, `{"k": "v", ...}` and `[…]` literals, names of parameters and
+               locals, `d["k"]` (KeyError when missing), `==`, `!=`, `is None`, `is not None`, `< <= > >=` and `+ - *`
+               on integers, `max(a, b)`, `min(a, b)`, `len(list)`, `in` / `not in` on literal lists/tuples/sets of
+               strings (or a module level constant holding one), on list values and between strings (substring),
+               `s.startswith(p)`, `s.lower()`, `s.split()`, `s.split("c")`, `s.replace("c", "")`, `a + b` on strings, `and`, `or`, `not`, `a if c else b`,
+               `a or b` on lists, truthiness of lists and sets, `[e for x in l if c]`, `any(…)` / `all(…)` over a
+               generator, `{*l}` with `-`, `&`, `|` of which only emptiness (`len(S) > 0`, truthiness) is observable
   atoms        expressions the caller gives a meaning to (`spec.atoms`: normalised Python source -> Lean term, type),
                e.g.  `self.params.get('nets_spawner')` -> `nets_spawner : Option String`,
-               `'swarm' in self.params['pool_scope']` -> `swarm_in_scope : Bool`, `worker` -> `worker : Bool` (truthiness)
+               `'swarm' in self.params['pool_scope']` -> `swarm_in_scope : Bool`, `worker` -> `worker : Bool` (truthiness);
+               `spec.calls`: calls whose arguments are translated (`get_numeric('max_tries', _1)`), possibly monadic
+               (kinds raises / reads / action); `spec.fields`: reads on elements of lists of an opaque type
   blocks       whole branch bodies the caller pins verbatim (`spec.blocks`: Python source -> Lean term): a branch body
                whose AST equals the pinned one is translated to `return <term>`; used to abstract the *bodies* of a
-               selection (is_started: the three ways of counting) while the *selection* is translated
+               selection (is_started: the three ways of counting) while the *selection* is translated;
+               `spec.assign_blocks`: the same for a body that stands for `x := <term>`
 
 What is trusted (to be listed in the trusted base of a property that uses this module):
-  * this translator (about 400 lines): that the `do` block it prints means what the Python means on the subset above,
+  * this translator (about 1100 lines): that the `do` block it prints means what the Python means on the subset above,
     in particular: Lean hoists `(<- d.getItem k)` to the front of the enclosing statement in left-to-right order, which
-    is Python's evaluation order because effects (dictionary reads) are refused in short-circuited positions;
-    dictionaries are values in Lean, which is Python's meaning because aliasing a dictionary is refused;
-  * the atom table of each use: every atom expression is pure, total and keeps its value during the call, and the Lean
-    term given for it is what the hand model uses for that quantity; a Bool atom stands for the truthiness of the
-    expression;
-  * pinned blocks: have no effect on the selection (they are only reached as whole branch bodies and they return).
+    is Python's evaluation order because effects (dictionary reads, atoms that may raise) behind `and` / `or` are
+    computed by statements in front (`let mut pyTmp := a; if !pyTmp then pyTmp := (<- action)`) and are refused in
+    conditional expressions, `elif` tests, loop bodies and comprehensions; dictionaries are values in Lean, which is Python's meaning
+    because aliasing a dictionary is refused; a set is represented by a list of which only emptiness is observed;
+    loops are combinators whose element functions are pure; a local declared in front of an `if` with a default value
+    is assigned on every path before it is read;
+  * the atom table of each use: every atom expression is pure, total and keeps its value during the call (kinds
+    `raises` / `reads` / `action`: it is the stated action of the function's monad), and the Lean term given for it is
+    what the hand model uses for that quantity; a Bool atom stands for the truthiness of the expression; the prelude
+    lines of a spec are part of its atom table;
+  * pinned blocks: have no effect on the selection (they are only reached as whole branch bodies and they return, or
+    have the declared net effect on one local);
+  * dropped statements (declared log calls, locals only read by log / exception messages): have no effect.
 """
 import ast
 import os
@@ -47,7 +69,22 @@ class Unsupported(Exception):
 # ---------------------------------------------------------------------------------------------------------------------
 # types:  "str" | "optstr" | "bool" | "sdict" | ("tuple", (t, ...)) | any other string = an opaque Lean type name
 
-LEAN_TYPES = {"str": "String", "optstr": "Option String", "bool": "Bool", "sdict": "SDict"}
+LEAN_TYPES = {"str": "String", "optstr": "Option String", "bool": "Bool", "sdict": "SDict", "int": "Int",
+              "slist": "List String", "sset": "List String", "unit": "Unit"}
+
+# value a `let mut` is declared with when Python first assigns the name inside the branches of an `if` (every branch
+# assigns it before any read — checked — so the value is never seen)
+LEAN_DEFAULTS = {"str": '""', "optstr": "none", "bool": "false", "int": "0", "slist": "[]", "sset": "[]"}
+
+# Lean names of the string primitives (Python semantics on ASCII); the defaults are those of I2N/Model/Rules.lean, which
+# `./check C10` cross-checks against Python on every run (correspondence part (h)); a spec may rename them
+DEFAULT_PRIMS = {"split_char": "splitChar",            # s.split("c")     (one character; Lean: splitChar 'c' s)
+                 "remove_char": "pyRemoveChar",        # s.replace("c", "")  — to be defined by the spec's prelude
+                 "substr": "isSubstr",                 # a in b          (strings)
+                 "lower": "lower",                     # s.lower()
+                 "split_ws": "splitWs",                # s.split()
+                 "startswith": "pyStartsWith"}         # s.startswith(p)  — to be defined by the spec's prelude
+
 
 LEAN_KEYWORDS = {
     "local", "end", "from", "at", "in", "do", "then", "else", "if", "let", "have", "show", "fun", "match", "with", "for",
@@ -64,7 +101,22 @@ LEAN_KEYWORDS = {
 def lean_type(t):
     if isinstance(t, tuple) and t[0] == "tuple":
         return " × ".join(("(" + lean_type(x) + ")") if isinstance(x, tuple) else lean_type(x) for x in t[1])
+    if isinstance(t, tuple) and t[0] == "list":
+        return "List " + (("(" + lean_type(t[1]) + ")") if isinstance(t[1], tuple) or " " in lean_type(t[1]) else lean_type(t[1]))
     return LEAN_TYPES.get(t, t)
+
+
+def elem_type(t):
+    """element type of a list type (None when `t` is not a list)"""
+    if t == "slist":
+        return "str"
+    if isinstance(t, tuple) and t[0] == "list":
+        return t[1]
+    return None
+
+
+def list_of(t):
+    return "slist" if t == "str" else ("list", t)
 
 
 def lean_str(s):
@@ -78,8 +130,12 @@ def lean_str(s):
             out.append("\\n")
         elif 32 <= ord(ch) < 127:
             out.append(ch)
+        elif ord(ch) < 256:
+            out.append("\\x%02x" % ord(ch))
+        elif ord(ch) < 0x10000:
+            out.append("\\u%04x" % ord(ch))
         else:
-            out.append("\\u{%x}" % ord(ch))
+            raise Unsupported(f"string constant with the character U+{ord(ch):X}")
     return '"' + "".join(out) + '"'
 
 
@@ -114,23 +170,65 @@ class Spec:
     params      {python parameter name: (Lean term, type) | None}; `None` = the parameter has no meaning of its own (it
                 may only occur inside atoms and pinned blocks); `self` / `cls` are dropped.  The parameter list of the
                 Python function must be exactly the keys, in order.
-    atoms       {python expression source: (Lean term, type)}
-    blocks      [(python source of a whole branch body, Lean term, type)]
-    ret         type of the returned value
-    monad       "except" (dictionary reads allowed; result `Except Err <ret>`) | "pure" (`Id.run do`)
+    atoms       {python expression source: (Lean term, type) | (Lean term, type, kind)}; kind "pure" (default),
+                "raises" (the Lean term is an action of the function's monad that may fail: emitted as `(← term)`, refused
+                where Python may skip the evaluation) or "reads" (an action that neither fails nor changes anything:
+                emitted as `(← term)` anywhere outside a lambda)
+    calls       {python call source with the positional arguments other than string constants replaced by `_1`, `_2`, …:
+                (Lean template with `{1}`,
+                `{2}`, …, result type, kind[, argument types])}: an atom with translated arguments, e.g.
+                `self.params.get_numeric('max_tries', _1)` -> `(← getNumeric c.maxTries {1})`; kind as for atoms, or
+                "action" for a call used as a statement (result type "unit")
+    blocks      [(python source of a whole branch body, Lean term, type)]: the body stands for `return <term>`
+    assign_blocks [(python source of a whole branch body, variable, Lean term, type)]: the body stands for
+                `variable := <term>` (its net effect; everything else it does is undone inside the body)
+    raises      [(exception class, prefix of the message template, Lean term)]: `raise Cls(f"…")` -> `throw <term>`; the
+                template is the message with every non-constant `{…}` replaced by `{}`
+    ignored_calls  dotted names of functions whose calls *as statements* have no effect on the decision (`logging.debug`)
+    transparent_with  dotted names of context managers whose `with` body is translated in place (`image_lock`: the lock
+                protocol is modelled separately)
+    fields      {(opaque type, "['key']" | ".attr"): (Lean template with `{0}`, type)}: reads on values of list elements
+    prims       Lean names of the string primitives (see DEFAULT_PRIMS)
+    ret         type of the returned value ("unit": the function returns None, bare `return` and falling off the end allowed)
+    monad       "except" (dictionary reads / raises allowed; result `Except Err <ret>`) | "pure" (`Id.run do`) |
+                any other text = the monad itself, e.g. "StateT FS (Except Err)"
+    prelude     Lean lines printed before the definition (helper definitions the atom table refers to; trusted with it)
+    local_types {name: type} for locals whose first value is the empty list `[]`
+    stmts       {python source of ONE statement: Lean action}: a statement pinned verbatim that stands for an action of the
+                function's monad (`self.should_rerun = lambda _: False` -> `set true`); it may contain what is refused
+                elsewhere (attribute stores, lambdas)
+    unpack_error Lean term thrown by `a, b = <list of strings>` when the list has another length (Python's ValueError)
+    type_defaults {opaque Lean type: a value of it}: values of these types may be compared with `==` (the type has a lawful
+                `BEq`) and locals of these types may be first assigned inside the branches of an `if`
     """
 
-    def __init__(self, lean_name, binders, params, ret, atoms=None, blocks=None, monad="pure", doc=""):
+    def __init__(self, lean_name, binders, params, ret, atoms=None, blocks=None, monad="pure", doc="", calls=None,
+                 assign_blocks=None, raises=None, ignored_calls=(), transparent_with=(), fields=None, prims=None,
+                 prelude=(), local_types=None, type_defaults=None, stmts=None, unpack_error=None):
         self.lean_name = lean_name
         self.binders = list(binders)
         self.params = dict(params)
         self.ret = ret
-        self.atoms = {norm_expr(k): v for k, v in (atoms or {}).items()}
+        self.atoms = {norm_expr(k): (tuple(v) + ("pure",))[:3] for k, v in (atoms or {}).items()}
+        self.calls = {norm_expr(k): tuple(v) for k, v in (calls or {}).items()}
         self.blocks = [(norm_block(src), term, typ) for src, term, typ in (blocks or [])]
-        if monad not in ("except", "pure"):
-            raise ValueError(monad)
+        self.assign_blocks = [(norm_block(src), var, term, typ) for src, var, term, typ in (assign_blocks or [])]
+        self.raises = list(raises or [])
+        self.ignored_calls = set(ignored_calls)
+        self.transparent_with = set(transparent_with)
+        self.fields = dict(fields or {})
+        self.prims = dict(DEFAULT_PRIMS, **(prims or {}))
+        self.prelude = list(prelude)
+        self.local_types = dict(local_types or {})
+        self.type_defaults = dict(type_defaults or {})
+        self.stmts = {norm_block(k): v for k, v in (stmts or {}).items()}
+        self.unpack_error = unpack_error
         self.monad = monad
         self.doc = doc
+
+    @property
+    def monadic(self):
+        return self.monad != "pure"
 
 
 # ---------------------------------------------------------------------------------------------------------------------
@@ -142,6 +240,9 @@ def find_function(tree, qualname):
     parts = qualname.split(".")
     for i, part in enumerate(parts):
         hits = [n for n in body if isinstance(n, (ast.FunctionDef, ast.AsyncFunctionDef, ast.ClassDef)) and n.name == part]
+        if node is not None and isinstance(node, ast.FunctionDef):
+            # a function defined inside a function: it must be a plain statement of the outer body
+            hits = [n for n in body if isinstance(n, ast.FunctionDef) and n.name == part]
         # a later plain assignment to the same name would replace the definition
         rebinds = [n for n in body if isinstance(n, (ast.Assign, ast.AnnAssign, ast.AugAssign))
                    and any(isinstance(t, ast.Name) and t.id == part
@@ -150,11 +251,11 @@ def find_function(tree, qualname):
             raise Unsupported(f"{qualname}: {part!r} is defined {len(hits)} times / rebound {len(rebinds)} times")
         node = hits[0]
         last = i == len(parts) - 1
-        if last != isinstance(node, ast.FunctionDef):
+        if (last and not isinstance(node, ast.FunctionDef)) or isinstance(node, ast.AsyncFunctionDef):
             raise Unsupported(f"{qualname}: {part!r} is a {type(node).__name__}")
         body = node.body
     for d in node.decorator_list:
-        if not (isinstance(d, ast.Name) and d.id in ("classmethod", "staticmethod")):
+        if not (isinstance(d, ast.Name) and d.id in ("classmethod", "staticmethod", "property")):
             raise Unsupported(f"{qualname}: decorator {ast.unparse(d)} is not understood")
     return node
 
@@ -191,8 +292,17 @@ class _Fn:
         self.inline = {}        # name -> python AST of its defining (opaque) expression
         self.fresh_dicts = set()  # locals that hold a dictionary created by a literal here
         self.lines = []
+        self.scopes = []        # variables bound by a Lean lambda / match arm: [{python name: (Lean text, type)}]
+        self.lam = 0            # > 0 inside a Lean lambda: nothing monadic may be emitted there
+        self.pending = {}       # names declared in front of an enclosing `if`: name -> [line index, type | None, depth]
+        self.logseen = set()    # log-only locals assigned so far
+        self.blocks_open = []   # the statement lists being translated: [(stmts, names declared inside)]
         self.assigned = self._assigned_names(fn)
-        self.uses = {"atoms": set(), "blocks": set()}
+        self.loopvars = self._loop_targets(fn)
+        self.logonly = self._log_only_names()
+        self.uses = {"atoms": set(), "blocks": set(), "assign_blocks": set(), "calls": set(), "raises": set(),
+                     "stmts": set()}
+        self.ntmp = 0
         args = fn.args
         if args.vararg or args.kwarg or args.kwonlyargs or args.posonlyargs:
             raise Unsupported(f"{fn.name}: *args / **kwargs / keyword-only / positional-only parameters")
@@ -204,15 +314,20 @@ class _Fn:
         for n in self.assigned:
             if n in spec.params or n in ("self", "cls"):
                 raise Unsupported(f"{fn.name}: assignment to the parameter {n!r}")
-        for key in spec.atoms:
+        for key in list(spec.atoms) + list(spec.calls):
             for x in ast.walk(ast.parse(key, mode="eval")):
-                if isinstance(x, ast.Name) and x.id in self.assigned:
+                if isinstance(x, ast.Name) and x.id in self.assigned and x.id not in self.loopvars:
                     raise Unsupported(f"{fn.name}: the atom `{key}` mentions {x.id!r}, which the function assigns")
 
-    @staticmethod
-    def _assigned_names(fn):
+    def _assigned_names(self, fn):
         out = {}
+        pinned = set()
         for n in ast.walk(fn):
+            if isinstance(n, ast.stmt) and n is not fn and dump_stmts([n]) in self.spec.stmts:
+                pinned |= {id(x) for x in ast.walk(n)}
+        for n in ast.walk(fn):
+            if id(n) in pinned:
+                continue
             if isinstance(n, ast.Name) and isinstance(n.ctx, (ast.Store, ast.Del)):
                 out[n.id] = out.get(n.id, 0) + 1
             elif isinstance(n, (ast.FunctionDef, ast.AsyncFunctionDef, ast.ClassDef, ast.Lambda)) and n is not fn:
@@ -220,6 +335,42 @@ class _Fn:
             elif isinstance(n, (ast.Global, ast.Nonlocal, ast.NamedExpr, ast.Import, ast.ImportFrom)):
                 raise Unsupported(f"{fn.name}: {type(n).__name__}")
         return out
+
+    def _loop_targets(self, fn):
+        """names bound ONLY as the target of `for` statements / comprehensions (each such binding is a Lean lambda
+        variable; an atom may mention them)"""
+        cnt = {}
+        for n in ast.walk(fn):
+            tgt = n.target if isinstance(n, (ast.For, ast.comprehension)) else None
+            if tgt is not None:
+                for x in ast.walk(tgt):
+                    if isinstance(x, ast.Name):
+                        cnt[x.id] = cnt.get(x.id, 0) + 1
+        return {k for k, v in cnt.items() if v == self.assigned.get(k)}
+
+    def _bound(self, node):
+        """every local of the function that the (untranslated) message expression `node` reads has been assigned on the
+        way here (Python would raise UnboundLocalError otherwise)"""
+        for x in ast.walk(node):
+            if isinstance(x, ast.Name) and isinstance(x.ctx, ast.Load) and x.id in self.assigned:
+                if not (x.id in self.locals or x.id in self.inline or x.id in self.logseen
+                        or any(x.id in sc for sc in self.scopes)):
+                    return False
+        return True
+
+    def _is_ignored_call(self, s):
+        return isinstance(s, ast.Expr) and isinstance(s.value, ast.Call) and _dotted(s.value.func) in self.spec.ignored_calls
+
+    def _log_only_names(self):
+        """assigned names that are read nowhere but in the arguments of ignored calls (log messages) or in the messages
+        of `raise` statements"""
+        inside = set()
+        for n in ast.walk(self.fn):
+            if self._is_ignored_call(n) or isinstance(n, ast.Raise):
+                inside |= {id(x) for x in ast.walk(n)}
+        read_elsewhere = {x.id for x in ast.walk(self.fn)
+                          if isinstance(x, ast.Name) and isinstance(x.ctx, ast.Load) and id(x) not in inside}
+        return {k for k in self.assigned if k not in read_elsewhere and k not in self.loopvars}
 
     # ---- atoms ------------------------------------------------------------------------------------------------------
 
@@ -242,19 +393,51 @@ class _Fn:
             self.uses["atoms"].add(key)
         return hit
 
+    def _wrap(self, term, kind, node, eff):
+        """how a (possibly monadic) atom is used inside an expression"""
+        if kind == "pure":
+            return term
+        where = f"{self.fn.name}:{getattr(node, 'lineno', '?')}"
+        if kind not in ("raises", "reads"):
+            raise Unsupported(f"{where}: `{ast.unparse(node)}` is an atom of kind {kind!r}, used as a value")
+        if not self.spec.monadic:
+            raise Unsupported(f"{where}: `{ast.unparse(node)}` is an action, the function is declared pure")
+        if self.lam:
+            raise Unsupported(f"{where}: the action `{ast.unparse(node)}` inside a loop body / comprehension")
+        if kind == "raises" and not eff:
+            raise Unsupported(f"{where}: `{ast.unparse(node)}` may raise and stands in a position Python may skip "
+                              "(right operand of and/or, conditional expression)")
+        return f"(← {term})"
+
     # ---- expressions --------------------------------------------------------------------------------------------------
     # expr(node, eff) -> (Lean text, type); `eff` False = a position Python may skip (right of and/or, branches of a
-    # conditional expression): dictionary reads are refused there
+    # conditional expression): dictionary reads and atoms that may raise are refused there
 
     def expr(self, node, eff=True):
         hit = self.atom(node)
         if hit is not None:
-            return hit
+            return self._wrap(hit[0], hit[2], node, eff), hit[1]
         m = getattr(self, "e_" + type(node).__name__, None)
         if m is None:
             raise Unsupported(f"{self.fn.name}:{getattr(node, 'lineno', '?')}: expression `{ast.unparse(node)}` "
                               f"({type(node).__name__}) is outside the subset and not an atom")
         return m(node, eff)
+
+    def cond(self, node, eff=True):
+        """Lean Bool for the truthiness of `node`: Booleans, lists and sets (non-empty), and/or/not of those.  The
+        truthiness of strings, optionals and numbers is refused (atoms only)."""
+        if isinstance(node, ast.BoolOp) and self.atom(node) is None:
+            parts = [self.cond(v, eff and i == 0) for i, v in enumerate(node.values)]
+            return "(" + (" && " if isinstance(node.op, ast.And) else " || ").join(parts) + ")"
+        if isinstance(node, ast.UnaryOp) and isinstance(node.op, ast.Not) and self.atom(node) is None:
+            return f"(!{self.cond(node.operand, eff)})"
+        t, ty = self.expr(node, eff)
+        if ty == "bool":
+            return t
+        if ty in ("slist", "sset") or elem_type(ty) is not None:
+            return f"(!{t}.isEmpty)"
+        raise Unsupported(f"{self.fn.name}:{getattr(node, 'lineno', '?')}: `{ast.unparse(node)}` is a {ty}, not a Boolean "
+                          "or a list (truthiness of other values only through atoms)")
 
     def e_Constant(self, node, eff):
         v = node.value
@@ -264,10 +447,15 @@ class _Fn:
             return lean_str(v), "str"
         if v is None:
             return "(none : Option String)", "optstr"
+        if isinstance(v, int):
+            return f"({v} : Int)", "int"
         raise Unsupported(f"{self.fn.name}:{node.lineno}: constant {v!r}")
 
     def e_Name(self, node, eff):
         n = node.id
+        for sc in reversed(self.scopes):
+            if n in sc:
+                return sc[n]
         if n in self.locals:
             return lean_ident(n), self.locals[n]
         if n in self.inline:
@@ -285,6 +473,27 @@ class _Fn:
         parts = [self.expr(e, eff) for e in node.elts]
         return "(" + ", ".join(p[0] for p in parts) + ")", ("tuple", tuple(p[1] for p in parts))
 
+    def e_List(self, node, eff):
+        """a non-empty literal list (of strings, or of values of one opaque type)"""
+        if not node.elts or any(isinstance(e, ast.Starred) for e in node.elts):
+            raise Unsupported(f"{self.fn.name}:{node.lineno}: list `{ast.unparse(node)}` (only non-empty lists; an empty "
+                              "list only as the first value of a local whose type the spec declares)")
+        parts = [self.expr(e, eff) for e in node.elts]
+        tys = {p[1] for p in parts}
+        if len(tys) != 1 or isinstance(parts[0][1], tuple) or parts[0][1] in ("sdict", "sset", "slist", "unit"):
+            raise Unsupported(f"{self.fn.name}:{node.lineno}: list `{ast.unparse(node)}` of {sorted(map(str, tys))}")
+        return "[" + ", ".join(p[0] for p in parts) + "]", list_of(parts[0][1])
+
+    def e_Set(self, node, eff):
+        """`{*xs}`: the set of the strings of a list — a value of which only emptiness (and the emptiness of its
+        differences / intersections) can be observed in the subset"""
+        if len(node.elts) != 1 or not isinstance(node.elts[0], ast.Starred):
+            raise Unsupported(f"{self.fn.name}:{node.lineno}: set `{ast.unparse(node)}` (only `{{*list}}`)")
+        t, ty = self.expr(node.elts[0].value, eff)
+        if ty not in ("slist", "sset"):
+            raise Unsupported(f"{self.fn.name}:{node.lineno}: set of a {ty}")
+        return t, "sset"
+
     def e_Dict(self, node, eff):
         keys = []
         items = []
@@ -300,27 +509,56 @@ class _Fn:
             items.append(f"({lean_str(k.value)}, {t})")
         return "([" + ", ".join(items) + "] : SDict)", "sdict"
 
+    def _field(self, node, base, ty, sel):
+        hit = self.spec.fields.get((ty, sel))
+        if hit is None:
+            raise Unsupported(f"{self.fn.name}:{node.lineno}: `{ast.unparse(node)}`: no field {sel} declared for {ty}")
+        return hit[0].format(base), hit[1]
+
     def e_Subscript(self, node, eff):
         if not isinstance(node.ctx, ast.Load):
             raise Unsupported(f"{self.fn.name}:{node.lineno}: `{ast.unparse(node)}`")
         d, ty = self.expr(node.value, eff)
-        if ty != "sdict" or not (isinstance(node.slice, ast.Constant) and isinstance(node.slice.value, str)):
+        if not (isinstance(node.slice, ast.Constant) and isinstance(node.slice.value, str)):
+            raise Unsupported(f"{self.fn.name}:{node.lineno}: subscript `{ast.unparse(node)}` (only [\"literal\"])")
+        if isinstance(ty, str) and ty not in LEAN_TYPES:
+            return self._field(node, d, ty, f"[{node.slice.value!r}]")
+        if ty != "sdict":
             raise Unsupported(f"{self.fn.name}:{node.lineno}: subscript `{ast.unparse(node)}` (only dict[\"literal\"])")
         if self.spec.monad != "except":
-            raise Unsupported(f"{self.fn.name}:{node.lineno}: dictionary read in a function declared pure")
-        if not eff:
+            raise Unsupported(f"{self.fn.name}:{node.lineno}: dictionary read in a function not declared `except`")
+        if not eff or self.lam:
             raise Unsupported(f"{self.fn.name}:{node.lineno}: dictionary read `{ast.unparse(node)}` in a position "
-                              "Python may skip (right operand of and/or, conditional expression)")
+                              "Python may skip (right operand of and/or, conditional expression, loop body)")
         return f"(← SDict.getItem {d} {lean_str(node.slice.value)})", "str"
 
+    def e_Attribute(self, node, eff):
+        d, ty = self.expr(node.value, eff)
+        if isinstance(ty, str) and ty not in LEAN_TYPES:
+            return self._field(node, d, ty, "." + node.attr)
+        raise Unsupported(f"{self.fn.name}:{node.lineno}: attribute `{ast.unparse(node)}` of a {ty}")
+
     def _eq(self, a, ta, b, tb, where):
-        if ta == tb and ta in ("str", "optstr", "bool"):
+        if ta == tb and (ta in ("str", "optstr", "bool", "int") or ta in self.spec.type_defaults):
             return f"({a} == {b})"
         if (ta, tb) == ("optstr", "str"):
             return f"({a} == some {b})"
         if (ta, tb) == ("str", "optstr"):
             return f"(some {a} == {b})"
         raise Unsupported(f"{where}: comparison of {ta} with {tb}")
+
+    def _len_of_set(self, node):
+        """`len(S)` for a set valued S (only its comparison with 0 is translated) -> Lean text of S, or None"""
+        if isinstance(node, ast.Call) and isinstance(node.func, ast.Name) and node.func.id == "len" \
+                and node.func.id not in self.assigned and len(node.args) == 1 and not node.keywords \
+                and self.atom(node) is None:
+            try:
+                t, ty = self.expr(node.args[0], False)
+            except Unsupported:
+                return None
+            if ty == "sset":
+                return t
+        return None
 
     def e_Compare(self, node, eff):
         where = f"{self.fn.name}:{node.lineno}"
@@ -330,16 +568,30 @@ class _Fn:
         # the negative forms of atoms:  `a not in b`, `a != b`, `a is not b`
         pos = {ast.NotIn: ast.In, ast.NotEq: ast.Eq, ast.IsNot: ast.Is}.get(type(op))
         if pos is not None:
-            hit = self.atom(ast.Compare(left=node.left, ops=[pos()], comparators=[right]))
+            pnode = ast.Compare(left=node.left, ops=[pos()], comparators=[right])
+            hit = self.atom(pnode)
             if hit is not None:
                 if hit[1] != "bool":
                     raise Unsupported(f"{where}: atom of type {hit[1]} negated")
-                return f"(!{hit[0]})", "bool"
+                return f"(!{self._wrap(hit[0], hit[2], node, eff)})", "bool"
+        s = self._len_of_set(node.left)
+        if s is not None:
+            if not (isinstance(right, ast.Constant) and right.value == 0 and not isinstance(right.value, bool)
+                    and isinstance(op, (ast.Gt, ast.Eq, ast.NotEq))):
+                raise Unsupported(f"{where}: `{ast.unparse(node)}`: the size of a set may only be compared with 0 (>, ==, !=)")
+            return (f"{s}.isEmpty" if isinstance(op, ast.Eq) else f"(!{s}.isEmpty)"), "bool"
         if isinstance(op, (ast.Eq, ast.NotEq)):
             a, ta = self.expr(node.left, eff)
             b, tb = self.expr(right, eff)
             t = self._eq(a, ta, b, tb, where)
             return (t if isinstance(op, ast.Eq) else f"(!{t})"), "bool"
+        if isinstance(op, (ast.Lt, ast.LtE, ast.Gt, ast.GtE)):
+            a, ta = self.expr(node.left, eff)
+            b, tb = self.expr(right, eff)
+            if (ta, tb) != ("int", "int"):
+                raise Unsupported(f"{where}: order comparison of {ta} with {tb} (integers only)")
+            sym = {ast.Lt: "<", ast.LtE: "≤", ast.Gt: ">", ast.GtE: "≥"}[type(op)]
+            return f"(decide ({a} {sym} {b}))", "bool"
         if isinstance(op, (ast.Is, ast.IsNot)):
             if not (isinstance(right, ast.Constant) and right.value is None):
                 raise Unsupported(f"{where}: `{ast.unparse(node)}` (only `is None` / `is not None`)")
@@ -354,8 +606,21 @@ class _Fn:
                     and right.id not in self.spec.params:
                 lits = self.consts.get(right.id)
             if lits is None:
-                raise Unsupported(f"{where}: `{ast.unparse(node)}`: the right side is neither a literal list of strings "
-                                  "nor a module constant holding one, and the test is not an atom")
+                # membership in a list valued expression / substring test between two string valued expressions
+                try:
+                    b, tb = self.expr(right, eff)
+                except Unsupported as e:
+                    raise Unsupported(f"{where}: `{ast.unparse(node)}`: the right side is neither a literal list of "
+                                      f"strings, a module constant holding one, a list or a string, and the test is "
+                                      f"not an atom ({e})")
+                a, ta = self.expr(node.left, eff)
+                if (ta, tb) == ("str", "slist"):
+                    t = f"({b}.contains {a})"
+                elif (ta, tb) == ("str", "str"):
+                    t = f"({self.spec.prims['substr']} {a} {b})"
+                else:
+                    raise Unsupported(f"{where}: `{ast.unparse(node)}`: membership of a {ta} in a {tb}")
+                return (t if isinstance(op, ast.In) else f"(!{t})"), "bool"
             a, ta = self.expr(node.left, eff)
             if ta == "str":
                 lst = "[" + ", ".join(lean_str(x) for x in lits) + "]"
@@ -368,35 +633,203 @@ class _Fn:
         raise Unsupported(f"{where}: operator in `{ast.unparse(node)}`")
 
     def e_BoolOp(self, node, eff):
-        parts = []
-        for i, v in enumerate(node.values):
-            t, ty = self.expr(v, eff and i == 0)
-            if ty != "bool":
-                raise Unsupported(f"{self.fn.name}:{node.lineno}: operand `{ast.unparse(v)}` of and/or is a {ty}, "
-                                  "not a Boolean (truthiness of other values only through atoms)")
-            parts.append(t)
-        return "(" + (" && " if isinstance(node.op, ast.And) else " || ").join(parts) + ")", "bool"
+        parts = [self.expr(v, eff and i == 0) for i, v in enumerate(node.values)]
+        tys = {p[1] for p in parts}
+        if tys == {"bool"}:
+            return "(" + (" && " if isinstance(node.op, ast.And) else " || ").join(p[0] for p in parts) + ")", "bool"
+        if len(tys) == 1 and isinstance(node.op, ast.Or) and elem_type(parts[0][1]) is not None:
+            # `a or b` on lists: the first non-empty operand (the last one when all are empty)
+            ty = parts[0][1]
+            out = parts[-1][0]
+            for t, _ in reversed(parts[:-1]):
+                out = f"(let pyOrLeft : {lean_type(ty)} := {t}; if pyOrLeft.isEmpty then {out} else pyOrLeft)"
+            return out, ty
+        bad = [ast.unparse(v) for v, p in zip(node.values, parts) if p[1] != "bool"]
+        raise Unsupported(f"{self.fn.name}:{node.lineno}: operand `{bad[0]}` of and/or is not a Boolean "
+                          "(as a value: only `or` between lists; truthiness of other values only through atoms)")
 
     def e_UnaryOp(self, node, eff):
+        if isinstance(node.op, ast.USub) and isinstance(node.operand, ast.Constant) and type(node.operand.value) is int:
+            return f"(-{node.operand.value} : Int)", "int"
         if not isinstance(node.op, ast.Not):
             raise Unsupported(f"{self.fn.name}:{node.lineno}: `{ast.unparse(node)}`")
-        t, ty = self.expr(node.operand, eff)
-        if ty != "bool":
-            raise Unsupported(f"{self.fn.name}:{node.lineno}: `not` of a {ty}")
-        return f"(!{t})", "bool"
+        return f"(!{self.cond(node.operand, eff)})", "bool"
 
     def e_IfExp(self, node, eff):
-        c, tc = self.expr(node.test, eff)
+        c = self.cond(node.test, eff)
         a, ta = self.expr(node.body, False)
         b, tb = self.expr(node.orelse, False)
-        if tc != "bool" or ta != tb:
-            raise Unsupported(f"{self.fn.name}:{node.lineno}: `{ast.unparse(node)}`: condition {tc}, branches {ta}/{tb}")
+        if ta != tb:
+            raise Unsupported(f"{self.fn.name}:{node.lineno}: `{ast.unparse(node)}`: branches {ta}/{tb}")
         return f"(if {c} then {a} else {b})", ta
+
+    def e_BinOp(self, node, eff):
+        where = f"{self.fn.name}:{node.lineno}"
+        a, ta = self.expr(node.left, eff)
+        b, tb = self.expr(node.right, eff)
+        if (ta, tb) == ("int", "int") and isinstance(node.op, (ast.Add, ast.Sub, ast.Mult)):
+            sym = {ast.Add: "+", ast.Sub: "-", ast.Mult: "*"}[type(node.op)]
+            return f"({a} {sym} {b})", "int"
+        if (ta, tb) == ("str", "str") and isinstance(node.op, ast.Add):
+            return f"({a} ++ {b})", "str"
+        if (ta, tb) == ("sset", "sset"):
+            if isinstance(node.op, ast.Sub):
+                return f"({a}.filter (fun pyElem => !({b}.contains pyElem)))", "sset"
+            if isinstance(node.op, ast.BitAnd):
+                return f"({a}.filter (fun pyElem => {b}.contains pyElem))", "sset"
+            if isinstance(node.op, ast.BitOr):
+                return f"({a} ++ {b})", "sset"
+        raise Unsupported(f"{where}: `{ast.unparse(node)}`: operator {type(node.op).__name__} on {ta} and {tb}")
+
+    # ---- calls, comprehensions ------------------------------------------------------------------------------------
+
+    def _template(self, node):
+        """a call as a key of `spec.calls`: the positional arguments other than string constants replaced by `_1`,
+        `_2`, …; returns (key, the replaced arguments)"""
+        import copy
+        c = copy.deepcopy(node)
+        holes, args = [], []
+        for a in node.args:
+            if isinstance(a, ast.Constant) and isinstance(a.value, str):
+                args.append(copy.deepcopy(a))
+            else:
+                holes.append(a)
+                args.append(ast.Name(id=f"_{len(holes)}", ctx=ast.Load()))
+        c.args = args
+        return ast.unparse(self._subst(c)), holes
+
+    def _call_atom(self, node, eff, as_statement=False):
+        if any(isinstance(a, ast.Starred) for a in node.args):
+            return None
+        key, holes = self._template(node)
+        hit = self.spec.calls.get(key)
+        if hit is None:
+            return None
+        self.uses["calls"].add(key)
+        tmpl, ty, kind = hit[0], hit[1], hit[2]
+        want = hit[3] if len(hit) > 3 else None
+        args = []
+        for i, a in enumerate(holes):
+            if want is not None and i < len(want) and want[i] == "_":
+                # an argument the Lean term does not mention: it must be a parameter passed on as it is
+                if not (isinstance(a, ast.Name) and a.id in self.spec.params):
+                    raise Unsupported(f"{self.fn.name}:{node.lineno}: `{ast.unparse(node)}`: argument {i + 1} must be a "
+                                      "parameter passed on unchanged")
+                args.append(("", "_"))
+            else:
+                args.append(self.expr(a, eff))
+        if want is not None and [a[1] for a in args] != list(want):
+            raise Unsupported(f"{self.fn.name}:{node.lineno}: `{ast.unparse(node)}`: argument types {[a[1] for a in args]}, "
+                              f"declared {list(want)}")
+        term = tmpl.format(None, *[a[0] for a in args])
+        if kind == "action":
+            if not as_statement:
+                raise Unsupported(f"{self.fn.name}:{node.lineno}: the action `{ast.unparse(node)}` is used as a value")
+            if self.lam or not self.spec.monadic:
+                raise Unsupported(f"{self.fn.name}:{node.lineno}: the action `{ast.unparse(node)}` in a pure position")
+            return term, "unit"
+        return self._wrap(term, kind, node, eff), ty
+
+    def _generator(self, node, eff):
+        """`<elt> for x in <list> if <c>…` -> (Lean list the variable runs over, Lean variable, scope)"""
+        where = f"{self.fn.name}:{node.lineno}"
+        if len(node.generators) != 1:
+            raise Unsupported(f"{where}: nested comprehension `{ast.unparse(node)}`")
+        g = node.generators[0]
+        if g.is_async or not isinstance(g.target, ast.Name):
+            raise Unsupported(f"{where}: comprehension target `{ast.unparse(g.target)}`")
+        src, ts = self.expr(g.iter, eff)
+        et = elem_type(ts)
+        if et is None:
+            raise Unsupported(f"{where}: comprehension over a {ts} (lists only)")
+        if g.target.id not in self.loopvars:
+            raise Unsupported(f"{where}: the comprehension variable {g.target.id!r} is also assigned elsewhere")
+        v = lean_ident(g.target.id)
+        scope = {g.target.id: (v, et)}
+        if g.ifs:
+            self.scopes.append(scope)
+            self.lam += 1
+            try:
+                conds = [self.cond(c, False) for c in g.ifs]
+            finally:
+                self.lam -= 1
+                self.scopes.pop()
+            src = f"({src}.filter (fun {v} => {' && '.join(conds)}))"
+        return src, v, scope
+
+    def _under(self, scope, f):
+        self.scopes.append(scope)
+        self.lam += 1
+        try:
+            return f()
+        finally:
+            self.lam -= 1
+            self.scopes.pop()
+
+    def e_ListComp(self, node, eff):
+        src, v, scope = self._generator(node, eff)
+        body, tb = self._under(scope, lambda: self.expr(node.elt, False))
+        if isinstance(tb, tuple) or tb in ("sdict", "sset"):
+            raise Unsupported(f"{self.fn.name}:{node.lineno}: a list of {tb}")
+        return f"({src}.map (fun {v} => {body}))", list_of(tb)
+
+    def e_Call(self, node, eff):
+        where = f"{self.fn.name}:{node.lineno}"
+        hit = self._call_atom(node, eff)
+        if hit is not None:
+            return hit
+        f = node.func
+        if node.keywords:
+            raise Unsupported(f"{where}: keyword arguments in `{ast.unparse(node)}`")
+        if isinstance(f, ast.Name) and f.id not in self.assigned and f.id not in self.spec.params:
+            if f.id == "len" and len(node.args) == 1:
+                t, ty = self.expr(node.args[0], eff)
+                if elem_type(ty) is None:
+                    raise Unsupported(f"{where}: `len` of a {ty} (lists only; the size of a set only compared with 0)")
+                return f"(Int.ofNat {t}.length)", "int"
+            if f.id in ("max", "min") and len(node.args) == 2:
+                a, ta = self.expr(node.args[0], eff)
+                b, tb = self.expr(node.args[1], eff)
+                if (ta, tb) != ("int", "int"):
+                    raise Unsupported(f"{where}: `{f.id}` of {ta} and {tb} (two integers only)")
+                return f"({f.id} {a} {b})", "int"
+            if f.id in ("any", "all") and len(node.args) == 1 and isinstance(node.args[0], (ast.GeneratorExp, ast.ListComp)):
+                g = node.args[0]
+                src, v, scope = self._generator(g, eff)
+                body = self._under(scope, lambda: self.cond(g.elt, False))
+                return f"({src}.{f.id} (fun {v} => {body}))", "bool"
+        if isinstance(f, ast.Attribute):
+            recv, tr = self.expr(f.value, eff)
+            if tr == "str":
+                if f.attr == "lower" and not node.args:
+                    return f"({self.spec.prims['lower']} {recv})", "str"
+                if f.attr == "split" and not node.args:
+                    return f"({self.spec.prims['split_ws']} {recv})", "slist"
+                one = [a.value for a in node.args if isinstance(a, ast.Constant) and isinstance(a.value, str)]
+                if f.attr == "split" and len(node.args) == 1 and len(one) == 1 and len(one[0]) == 1 and one[0].isascii() \
+                        and one[0].isprintable() and one[0] not in "'\\":
+                    return f"({self.spec.prims['split_char']} '{one[0]}' {recv})", "slist"
+                if f.attr == "replace" and len(node.args) == 2 and len(one) == 2 and len(one[0]) == 1 and one[1] == "" \
+                        and one[0].isascii() and one[0].isprintable() and one[0] not in "'\\":
+                    return f"({self.spec.prims['remove_char']} '{one[0]}' {recv})", "str"
+                if f.attr == "startswith" and len(node.args) == 1:
+                    a, ta = self.expr(node.args[0], eff)
+                    if ta != "str":
+                        raise Unsupported(f"{where}: `startswith` of a {ta}")
+                    return f"({self.spec.prims['startswith']} {recv} {a})", "bool"
+        raise Unsupported(f"{where}: call `{ast.unparse(node)}` is outside the subset and not an atom")
 
     # ---- statements -----------------------------------------------------------------------------------------------------
 
     def emit(self, depth, text):
         self.lines.append("  " * (depth + 1) + text)
+
+    def _pinned_assign(self, stmts):
+        d = dump_stmts(stmts)
+        for i, (pinned, var, term, typ) in enumerate(self.spec.assign_blocks):
+            if d == pinned:
+                return i, var, term, typ
+        return None
 
     def block(self, stmts, depth, top=False):
         """translate a statement list; returns True when every path through it returns"""
@@ -411,41 +844,90 @@ class _Fn:
                     self.uses["blocks"].add(i)
                     self.emit(depth, f"return {term}")
                     return True
+            hit = self._pinned_assign(stmts)
+            if hit is not None:
+                i, var, term, typ = hit
+                if any(isinstance(n, (ast.Return, ast.Raise, ast.Break, ast.Continue)) for s in stmts for n in ast.walk(s)):
+                    raise Unsupported(f"{self.fn.name}: pinned assigning block {i} leaves by return / raise / break")
+                self.uses["assign_blocks"].add(i)
+                self._store(var, term, typ, depth, False, f"{self.fn.name}: pinned assigning block {i}")
+                return False
         done = False
         emitted = 0
-        for i, s in enumerate(stmts):
-            if done:
-                raise Unsupported(f"{self.fn.name}:{s.lineno}: statement after a return")
-            if i == 0 and top and isinstance(s, ast.Expr) and isinstance(s.value, ast.Constant) and isinstance(s.value.value, str):
-                continue                                    # docstring
-            n0 = len(self.lines)
-            done = self.stmt(s, depth, top)
-            emitted += len(self.lines) - n0
+        self.blocks_open.append((stmts, []))
+        try:
+            for i, s in enumerate(stmts):
+                if done:
+                    raise Unsupported(f"{self.fn.name}:{s.lineno}: statement after a return")
+                if i == 0 and top and isinstance(s, ast.Expr) and isinstance(s.value, ast.Constant) and isinstance(s.value.value, str):
+                    continue                                    # docstring
+                n0 = len(self.lines)
+                done = self.stmt(s, depth, top)
+                emitted += len(self.lines) - n0
+        finally:
+            for name in self.blocks_open.pop()[1]:
+                del self.locals[name]                       # a local of this branch: unknown outside
         if emitted == 0:
             self.emit(depth, "pure ()")
         return done
+
+    def _branch_local(self, name):
+        """every occurrence of `name` in the function lies in the branch that is being translated"""
+        if not self.blocks_open or self.lam:
+            return False
+        inside = {id(x) for st in self.blocks_open[-1][0] for x in ast.walk(st)}
+        return all(id(x) in inside for x in ast.walk(self.fn) if isinstance(x, ast.Name) and x.id == name)
 
     def stmt(self, s, depth, top):
         where = f"{self.fn.name}:{s.lineno}"
         if isinstance(s, ast.Pass):
             return False
+        if self.spec.stmts:
+            key = dump_stmts([s])
+            if key in self.spec.stmts:
+                if self.lam or not self.spec.monadic:
+                    raise Unsupported(f"{where}: the pinned action `{ast.unparse(s)[:60]}` in a pure position")
+                self.uses["stmts"].add(key)
+                self.emit(depth, self.spec.stmts[key])
+                return False
         if isinstance(s, ast.Return):
-            if s.value is None:
-                raise Unsupported(f"{where}: bare return")
-            t, ty = self.expr(s.value)
+            if s.value is None or (isinstance(s.value, ast.Constant) and s.value.value is None and self.spec.ret == "unit"):
+                if self.spec.ret != "unit":
+                    raise Unsupported(f"{where}: bare return")
+                self.emit(depth, "return ()")
+                return True
+            t, ty = self._expr_or_lowered(s.value, depth, where)
             if ty != self.spec.ret:
                 raise Unsupported(f"{where}: returns a {ty}, the spec says {self.spec.ret}")
             self.emit(depth, f"return {t}")
             return True
+        if isinstance(s, ast.Raise):
+            self.emit(depth, f"throw {self._raise(s, where)}")
+            return True
         if isinstance(s, ast.If):
             self._if(s, depth, "if")
             return _terminates([s])
+        if isinstance(s, ast.Expr):
+            return self._expr_stmt(s, depth, where)
+        if isinstance(s, ast.For):
+            return self._for(s, depth, top, where)
+        if isinstance(s, ast.With):
+            return self._with(s, depth, top, where)
+        if isinstance(s, ast.AugAssign):
+            return self._augassign(s, depth, where)
         if isinstance(s, ast.Assign):
             if len(s.targets) != 1:
                 raise Unsupported(f"{where}: chained assignment")
             tgt = s.targets[0]
             if isinstance(tgt, ast.Name):
                 return self._assign(tgt.id, s.value, depth, top, where)
+            if isinstance(tgt, ast.Tuple) and all(isinstance(e, ast.Name) for e in tgt.elts):
+                names = [e.id for e in tgt.elts]
+                try:
+                    t, ty = self.expr(s.value)
+                except Unsupported:
+                    return self._unpack(names, s.value, top, where)
+                return self._unpack_list(names, t, ty, depth, top, where)
             if isinstance(tgt, ast.Subscript) and isinstance(tgt.value, ast.Name) and tgt.value.id in self.fresh_dicts \
                     and isinstance(tgt.slice, ast.Constant) and isinstance(tgt.slice.value, str):
                 t, ty = self.expr(s.value)
@@ -457,65 +939,562 @@ class _Fn:
             raise Unsupported(f"{where}: assignment target `{ast.unparse(tgt)}`")
         raise Unsupported(f"{where}: statement {type(s).__name__} `{ast.unparse(s)[:80]}`")
 
+    # -- statements without a counterpart in the decision: log calls, log-only locals
+
+    def _expr_stmt(self, s, depth, where):
+        if self._is_ignored_call(s):
+            for a in list(s.value.args) + [k.value for k in s.value.keywords]:
+                if not _harmless(a) or not self._bound(a):
+                    raise Unsupported(f"{where}: argument `{ast.unparse(a)[:60]}` of the ignored call "
+                                      f"`{_dotted(s.value.func)}` is not a plain message (or reads an unassigned local)")
+            return False
+        if isinstance(s.value, ast.Call):
+            hit = self._call_atom(s.value, True, as_statement=True)
+            if hit is not None and hit[1] == "unit":
+                self.emit(depth, hit[0])
+                return False
+        raise Unsupported(f"{where}: expression statement `{ast.unparse(s)[:80]}`")
+
+    def _raise(self, s, where):
+        if not self.spec.monadic:
+            raise Unsupported(f"{where}: raise in a function declared pure")
+        if self.lam:
+            raise Unsupported(f"{where}: raise inside a loop body")
+        e = s.exc
+        if s.cause is not None or not (isinstance(e, ast.Call) and isinstance(e.func, ast.Name) and len(e.args) == 1
+                                       and not e.keywords):
+            raise Unsupported(f"{where}: `{ast.unparse(s)[:80]}` (only `raise Cls(message)`)")
+        msg = e.args[0]
+        if isinstance(msg, ast.Constant) and isinstance(msg.value, str):
+            tmpl = msg.value
+        elif isinstance(msg, ast.JoinedStr) and _harmless(msg) and self._bound(msg):
+            tmpl = "".join(v.value if isinstance(v, ast.Constant) else
+                           (v.value.value if isinstance(v.value, ast.Constant) and isinstance(v.value.value, str)
+                            and v.conversion == -1 and v.format_spec is None else "{}")
+                           for v in msg.values)
+        else:
+            raise Unsupported(f"{where}: the message of `{ast.unparse(s)[:80]}` is not a plain (f-)string")
+        hits = [(i, term) for i, (cls, prefix, term) in enumerate(self.spec.raises)
+                if cls == e.func.id and tmpl.startswith(prefix)]
+        if len(hits) != 1:
+            raise Unsupported(f"{where}: `raise {e.func.id}({tmpl!r})` matches {len(hits)} declared exceptions")
+        self.uses["raises"].add(hits[0][0])
+        return hits[0][1]
+
+    # -- assignments
+
+    def _store(self, name, t, ty, depth, top, where, value=None):
+        """`name = <t>`: declaration (top level, or in front of the enclosing `if`) or update of a `let mut`"""
+        if ty == "sdict":
+            if not isinstance(value, ast.Dict):
+                raise Unsupported(f"{where}: a dictionary is assigned from `{ast.unparse(value) if value else '?'}` "
+                                  "(aliasing); only dictionary literals may be assigned")
+            self.fresh_dicts.add(name)
+        if ty == "unit":
+            raise Unsupported(f"{where}: None is assigned to {name!r}")
+        if name in self.locals:
+            if self.locals[name] != ty:
+                raise Unsupported(f"{where}: {name!r} changes its type from {self.locals[name]} to {ty}")
+            self.emit(depth, f"{lean_ident(name)} := {t}")
+        elif name in self.pending and self.pending[name][1] is None:
+            self.pending[name][1] = ty
+            self.locals[name] = ty
+            self.emit(depth, f"{lean_ident(name)} := {t}")
+        else:
+            if not top:
+                if not self._branch_local(name):
+                    raise Unsupported(f"{where}: {name!r} is first assigned inside a branch (and not in every branch), "
+                                      "and it is used outside that branch")
+                self.blocks_open[-1][1].append(name)
+            self.locals[name] = ty
+            self.emit(depth, f"let mut {lean_ident(name)} : {lean_type(ty)} := {t}")
+        return False
+
     def _assign(self, name, value, depth, top, where):
+        if name in self.loopvars or any(name in sc for sc in self.scopes):
+            raise Unsupported(f"{where}: assignment to the loop variable {name!r}")
+        if name in self.logonly and name not in self.locals and _harmless(value) and self._bound(value):
+            self.logseen.add(name)
+            return False                                   # only ever read by log / exception messages
+        if isinstance(value, ast.List) and not value.elts and name in self.spec.local_types:
+            return self._store(name, "[]", self.spec.local_types[name], depth, top, where, value)
         try:
-            t, ty = self.expr(value)
+            t, ty = self._expr_or_lowered(value, depth, where)
         except Unsupported:
             # an opaque right-hand side: allowed for a single top-level assignment; every use must then be an atom
             if top and self.assigned.get(name) == 1 and name not in self.locals and _opaque_ok(value):
                 self.inline[name] = self._subst(value)
                 return False
             raise
-        if ty == "sdict":
-            if not isinstance(value, ast.Dict):
-                raise Unsupported(f"{where}: a dictionary is assigned from `{ast.unparse(value)}` (aliasing); only "
-                                  "dictionary literals may be assigned")
-            self.fresh_dicts.add(name)
-        if name in self.locals:
-            if self.locals[name] != ty:
-                raise Unsupported(f"{where}: {name!r} changes its type from {self.locals[name]} to {ty}")
-            self.emit(depth, f"{lean_ident(name)} := {t}")
-        else:
-            if not top:
-                raise Unsupported(f"{where}: {name!r} is first assigned inside a branch")
-            self.locals[name] = ty
-            self.emit(depth, f"let mut {lean_ident(name)} : {lean_type(ty)} := {t}")
+        return self._store(name, t, ty, depth, top, where, value)
+
+    # -- short circuits with effects: `a or <action>` evaluates the action only when `a` is false.  Lean would hoist
+    #    `(← action)` to the front of the statement, so such an expression is computed by statements in front:
+    #        let mut pyTmp1 : Bool := a
+    #        if (!pyTmp1) then
+    #          pyTmp1 := (← action)
+
+    def _expr_or_lowered(self, node, depth, where):
+        n0, ntmp = len(self.lines), self.ntmp
+        try:
+            return self.expr(node)
+        except Unsupported as e:
+            if not (isinstance(node, ast.BoolOp) and self.spec.monadic and not self.lam):
+                raise
+            first = e
+        try:
+            return self._lower_bool(node, depth, where), "bool"
+        except Unsupported:
+            del self.lines[n0:]
+            self.ntmp = ntmp
+            raise first
+
+    def _lower_bool(self, node, depth, where):
+        """Lean text of a Boolean for `node` (and/or of Booleans), emitting statements in front of the current one"""
+        if not isinstance(node, ast.BoolOp) or self.atom(node) is not None:
+            t, ty = self.expr(node)
+            if ty != "bool":
+                raise Unsupported(f"{where}: operand `{ast.unparse(node)[:60]}` of and/or is a {ty}, not a Boolean")
+            return t
+        if self.lam or not self.spec.monadic:
+            raise Unsupported(f"{where}: `{ast.unparse(node)[:60]}`: an effect behind and/or in a pure position")
+        self.ntmp += 1
+        tmp = f"pyTmp{self.ntmp}"
+        t0 = self._lower_bool(node.values[0], depth, where)
+        self.emit(depth, f"let mut {tmp} : Bool := {t0}")
+        for v in node.values[1:]:
+            self.emit(depth, f"if {tmp if isinstance(node.op, ast.And) else '(!' + tmp + ')'} then")
+            tv = self._lower_bool(v, depth + 1, where)
+            self.emit(depth + 1, f"{tmp} := {tv}")
+        return tmp
+
+    def _unpack_list(self, names, t, ty, depth, top, where):
+        """`a, b = <list of strings>`: the names get the elements, any other length raises"""
+        if ty != "slist" or self.spec.unpack_error is None or not self.spec.monadic or self.lam \
+                or len(set(names)) != len(names) or len(names) < 2:
+            raise Unsupported(f"{where}: tuple assignment `{', '.join(names)} = …` from a {ty} (only from a list of "
+                              "strings, in a function that declares the error of a wrong length)")
+        for n in names:
+            if n in self.loopvars or any(n in sc for sc in self.scopes) or n in self.spec.params:
+                raise Unsupported(f"{where}: tuple assignment to {n!r}")
+            if n not in self.locals:
+                self._store(n, '""', "str", depth, top, where)
+            elif self.locals[n] != "str":
+                raise Unsupported(f"{where}: {n!r} changes its type from {self.locals[n]} to str")
+        self.ntmp += 1
+        parts = [f"pyPart{self.ntmp}_{i + 1}" for i in range(len(names))]
+        self.emit(depth, f"match {t} with")
+        self.emit(depth, f"| [{', '.join(parts)}] =>")
+        for n, q in zip(names, parts):
+            self.emit(depth + 1, f"{lean_ident(n)} := {q}")
+        self.emit(depth, f"| _ => throw {self.spec.unpack_error}")
+        return False
+
+    def _unpack(self, names, value, top, where):
+        """`a, b = <opaque>` at the top level: `a` / `b` stand for `<opaque>[0]` / `<opaque>[1]` inside atoms"""
+        if not (top and _opaque_ok(value) and all(self.assigned.get(n) == 1 and n not in self.locals for n in names)
+                and len(set(names)) == len(names)):
+            raise Unsupported(f"{where}: tuple assignment `{', '.join(names)} = {ast.unparse(value)[:60]}`")
+        base = self._subst(value)
+        for i, n in enumerate(names):
+            import copy
+            self.inline[n] = ast.Subscript(value=copy.deepcopy(base), slice=ast.Constant(value=i), ctx=ast.Load())
+        return False
+
+    def _augassign(self, s, depth, where):
+        if not isinstance(s.target, ast.Name) or s.target.id not in self.locals:
+            raise Unsupported(f"{where}: `{ast.unparse(s)[:80]}` (augmented assignment to a declared local only)")
+        name = s.target.id
+        x, tx = lean_ident(name), self.locals[name]
+        t, ty = self.expr(s.value)
+        self.emit(depth, f"{x} := {self._aug(x, tx, s.op, t, ty, where)}")
+        return False
+
+    def _aug(self, x, tx, op, t, ty, where):
+        if (tx, ty) == ("int", "int") and isinstance(op, (ast.Add, ast.Sub)):
+            return f"({x} {'+' if isinstance(op, ast.Add) else '-'} {t})"
+        if (tx, ty) == ("bool", "bool") and isinstance(op, (ast.BitOr, ast.BitAnd)):
+            return f"({x} {'||' if isinstance(op, ast.BitOr) else '&&'} {t})"
+        if (tx, ty) == ("str", "str") and isinstance(op, ast.Add):
+            return f"({x} ++ {t})"
+        if tx == ty and elem_type(tx) is not None and isinstance(op, ast.Add):
+            return f"({x} ++ {t})"
+        raise Unsupported(f"{where}: augmented assignment {type(op).__name__} of a {ty} to a {tx}")
+
+    # -- if
+
+    def _first_assigned(self, stmts, out):
+        """names an `if` statement assigns that are not declared yet (pinned bodies count through their variable)"""
+        hit = self._pinned_assign(stmts)
+        if hit is not None:
+            out.setdefault(hit[1], None)
+            return
+        if self._pinned(stmts):
+            return
+        for s in stmts:
+            if isinstance(s, ast.Assign) and len(s.targets) == 1 and isinstance(s.targets[0], ast.Name):
+                out.setdefault(s.targets[0].id, None)
+            elif isinstance(s, ast.If):
+                self._first_assigned(s.body, out)
+                self._first_assigned(s.orelse, out)
+            elif isinstance(s, ast.With):
+                self._first_assigned(s.body, out)
+
+    def _def_assigns(self, stmts, name):
+        """every path through `stmts` assigns `name` (or leaves the function)"""
+        hit = self._pinned_assign(stmts)
+        if hit is not None:
+            return hit[1] == name
+        for s in stmts:
+            if isinstance(s, ast.Assign) and len(s.targets) == 1 and isinstance(s.targets[0], ast.Name) \
+                    and s.targets[0].id == name:
+                return True
+            if isinstance(s, (ast.Return, ast.Raise)):
+                return True
+            if isinstance(s, ast.If) and s.orelse and self._def_assigns(s.body, name) and self._def_assigns(s.orelse, name):
+                return True
+            if isinstance(s, ast.With) and self._def_assigns(s.body, name):
+                return True
         return False
 
     def _if(self, s, depth, kw):
-        c, tc = self.expr(s.test)
-        if tc != "bool":
-            raise Unsupported(f"{self.fn.name}:{s.lineno}: the condition `{ast.unparse(s.test)}` is a {tc} "
-                              "(truthiness of other values only through atoms)")
+        mine = []
+        if kw == "if":
+            cand = {}
+            self._first_assigned([s], cand)
+            for name in cand:
+                if name in self.locals or name in self.pending or name in self.logonly or name in self.inline:
+                    continue
+                if not self._def_assigns([s], name):
+                    continue                               # refused at the assignment ("first assigned inside a branch")
+                self.pending[name] = [len(self.lines), None, depth]
+                self.lines.append(None)
+                mine.append(name)
+        if kw == "if":
+            try:
+                c = self.cond(s.test)
+            except Unsupported:
+                if not isinstance(s.test, ast.BoolOp):
+                    raise
+                c = self._lower_bool(s.test, depth, f"{self.fn.name}:{s.lineno}")
+        else:
+            c = self.cond(s.test)
         self.emit(depth, f"{kw} {c} then")
         self.block(s.body, depth + 1)
         if s.orelse:
-            if len(s.orelse) == 1 and isinstance(s.orelse[0], ast.If) and not self._pinned(s.orelse):
+            if len(s.orelse) == 1 and isinstance(s.orelse[0], ast.If) and not self._pinned(s.orelse) \
+                    and self._pinned_assign(s.orelse) is None:
                 self._if(s.orelse[0], depth, "else if")
             else:
                 self.emit(depth, "else")
                 self.block(s.orelse, depth + 1)
+        for name in mine:
+            idx, ty, d = self.pending.pop(name)
+            if ty is None:
+                self.lines[idx] = ""
+                continue
+            dflt = LEAN_DEFAULTS.get(ty) if not isinstance(ty, tuple) else None
+            dflt = dflt or (self.spec.type_defaults.get(ty) if not isinstance(ty, tuple) else None)
+            if dflt is None:
+                raise Unsupported(f"{self.fn.name}:{s.lineno}: {name!r} (a {ty}) is first assigned inside the branches of an if")
+            self.lines[idx] = "  " * (d + 1) + f"let mut {lean_ident(name)} : {lean_type(ty)} := {dflt}"
+        if mine:
+            self.lines = [l for l in self.lines if l != ""]
+            # indices of outer pending declarations are in front of ours: unaffected
 
     def _pinned(self, stmts):
         d = dump_stmts(stmts)
         return any(d == p for p, _, _ in self.spec.blocks)
+
+    # -- with
+
+    def _with(self, s, depth, top, where):
+        if len(s.items) != 1:
+            raise Unsupported(f"{where}: with of several context managers")
+        it = s.items[0]
+        ce = it.context_expr
+        if not (isinstance(ce, ast.Call) and _dotted(ce.func) in self.spec.transparent_with
+                and all(_harmless(a) for a in ce.args) and not ce.keywords):
+            raise Unsupported(f"{where}: `with {ast.unparse(ce)[:60]}`: not declared transparent")
+        if it.optional_vars is not None:
+            if not (isinstance(it.optional_vars, ast.Name) and it.optional_vars.id in self.logonly):
+                raise Unsupported(f"{where}: the value bound by `with … as {ast.unparse(it.optional_vars)}` is used")
+        done = False
+        for b in s.body:
+            if done:
+                raise Unsupported(f"{self.fn.name}:{b.lineno}: statement after a return")
+            done = self.stmt(b, depth, top)
+        return done
+
+    # -- for
+
+    def _for(self, s, depth, top, where):
+        if isinstance(s.iter, (ast.List, ast.Tuple)) and not any(isinstance(e, ast.Starred) for e in s.iter.elts) \
+                and self.atom(s.iter) is None and not _str_elements(s.iter):
+            return self._for_unrolled(s, depth, top, where)
+        if any(isinstance(n, ast.Continue) for n in ast.walk(s)):
+            raise Unsupported(f"{where}: `continue`")
+        if not isinstance(s.target, ast.Name) or s.target.id not in self.loopvars:
+            raise Unsupported(f"{where}: loop target `{ast.unparse(s.target)}` (a name that is bound by this loop only)")
+        src, ts = self.expr(s.iter)
+        et = elem_type(ts)
+        if et is None:
+            raise Unsupported(f"{where}: loop over a {ts} (lists only)")
+        v = lean_ident(s.target.id)
+        scope = {s.target.id: (v, et)}
+        # leading loop-local bindings  `y = <pure expression>`  (each name assigned here only and unknown outside)
+        body = list(s.body)
+        lets = []
+        all_names_outside = {x.id for x in ast.walk(self.fn) if isinstance(x, ast.Name)
+                             and not any(x is y for y in ast.walk(s))}
+        self.scopes.append(scope)
+        self.lam += 1
+        try:
+            while body and isinstance(body[0], ast.Assign) and len(body[0].targets) == 1 \
+                    and isinstance(body[0].targets[0], ast.Name) and self.assigned.get(body[0].targets[0].id) == 1 \
+                    and body[0].targets[0].id not in all_names_outside and len(body) > 1:
+                name, val = body[0].targets[0].id, body[0].value
+                if name in self.logonly and _harmless(val) and self._bound(val):
+                    self.logseen.add(name)
+                    body.pop(0)
+                    continue
+                try:
+                    t, ty = self.expr(val, False)
+                    scope[name] = (lean_ident(name), ty)
+                    lets.append(f"let {lean_ident(name)} : {lean_type(ty)} := {t}; ")
+                except Unsupported:
+                    if not _opaque_ok(val):
+                        raise
+                    self.inline[name] = self._subst(val)
+                body.pop(0)
+            pre = "".join(lets)
+            kind = self._loop_kind(s, body)
+            if kind == "find":
+                test = body[0]
+                c = self.cond(test.test, False)
+                self.lam -= 1                              # the match arm is a `do` sequence again
+                try:
+                    arm_lets = [l[:-2] for l in lets]
+                    self.emit(depth, f"match ({src}.find? (fun {v} => {pre}{c})) with")
+                    self.emit(depth, f"| some {v} =>")
+                    for l in arm_lets:
+                        self.emit(depth + 1, l)
+                    r = test.body[0]
+                    t, ty = self.expr(r.value) if r.value is not None else ("()", "unit")
+                    if ty != self.spec.ret:
+                        raise Unsupported(f"{where}: returns a {ty}, the spec says {self.spec.ret}")
+                    self.emit(depth + 1, f"return {t}")
+                    self.emit(depth, "| none => pure ()")
+                finally:
+                    self.lam += 1
+                return False
+            if kind == "any":
+                flag = body[0].targets[0].id
+
+                def boolean(e):                            # the flag must BE a Boolean (Python keeps the operand's value)
+                    t, ty = self.expr(e, False)
+                    if ty != "bool":
+                        raise Unsupported(f"{where}: the flag {flag!r} is assigned a {ty} (`{ast.unparse(e)[:60]}`)")
+                    return t
+                parts = [boolean(body[0].value)]
+                for b in body[1:-1]:
+                    if isinstance(b, ast.AugAssign):
+                        parts.append(boolean(b.value))
+                    else:                                  # flag = flag or e
+                        parts.append(boolean(b.value.values[1]))
+                text = f"({src}.any (fun {v} => {pre}({' || '.join(parts)})))"
+                self.lam -= 1
+                try:
+                    self._store(flag, text, "bool", depth, top, where)
+                finally:
+                    self.lam += 1
+                return False
+            # fold over one accumulator
+            acc = kind
+            a = lean_ident(acc)
+            step = self._fold_seq(body, acc, where)
+            self.emit(depth, f"{a} := {src}.foldl (fun {a} {v} => {pre}{step}) {a}")
+            return False
+        finally:
+            self.lam -= 1
+            self.scopes.pop()
+
+    def _loop_kind(self, s, body):
+        """which of the three loop shapes `body` has: "find" | "any" | <name of the accumulator>"""
+        where = f"{self.fn.name}:{s.lineno}"
+        # (1)  for x in L: [lets]; if c: return e
+        if len(body) == 1 and isinstance(body[0], ast.If) and not body[0].orelse and len(body[0].body) == 1 \
+                and isinstance(body[0].body[0], ast.Return) and not s.orelse:
+            return "find"
+        # (2)  for x in L: [lets]; v = e; (v |= e | v = v or e)*; if v: break      else: v = False
+        if len(body) >= 2 and isinstance(body[0], ast.Assign) and len(body[0].targets) == 1 \
+                and isinstance(body[0].targets[0], ast.Name) and isinstance(body[-1], ast.If):
+            flag = body[0].targets[0].id
+            last = body[-1]
+            ok = isinstance(last.test, ast.Name) and last.test.id == flag and not last.orelse and len(last.body) == 1 \
+                and isinstance(last.body[0], ast.Break) and len(s.orelse) == 1 and isinstance(s.orelse[0], ast.Assign) \
+                and len(s.orelse[0].targets) == 1 and isinstance(s.orelse[0].targets[0], ast.Name) \
+                and s.orelse[0].targets[0].id == flag and isinstance(s.orelse[0].value, ast.Constant) \
+                and s.orelse[0].value.value is False
+            for b in body[1:-1]:
+                ok = ok and ((isinstance(b, ast.AugAssign) and isinstance(b.target, ast.Name) and b.target.id == flag
+                              and isinstance(b.op, ast.BitOr))
+                             or (isinstance(b, ast.Assign) and len(b.targets) == 1 and isinstance(b.targets[0], ast.Name)
+                                 and b.targets[0].id == flag and isinstance(b.value, ast.BoolOp)
+                                 and isinstance(b.value.op, ast.Or) and len(b.value.values) == 2
+                                 and isinstance(b.value.values[0], ast.Name) and b.value.values[0].id == flag))
+            mentions = [x for b in body[:-1] for x in ast.walk(b.value) if isinstance(x, ast.Name) and x.id == flag]
+            allowed = sum(1 for b in body[1:-1] if isinstance(b, ast.Assign))
+            if ok and len(mentions) == allowed and self.assigned.get(flag) == len(body) - 1 + 1:
+                return "any"
+        # (3)  for x in L: [lets]; statements that update ONE declared local
+        if s.orelse or any(isinstance(n, (ast.Break, ast.Return, ast.Raise)) for b in body for n in ast.walk(b)):
+            raise Unsupported(f"{where}: this loop shape is outside the subset (accepted: `if c: return e` search loops, "
+                              "flag loops with `break` and `else: flag = False`, accumulations without break/return)")
+        accs = set()
+        for b in body:
+            for n in ast.walk(b):
+                if isinstance(n, ast.Name) and isinstance(n.ctx, ast.Store):
+                    accs.add(n.id)
+                if isinstance(n, ast.Expr) and isinstance(n.value, ast.Call) and isinstance(n.value.func, ast.Attribute) \
+                        and n.value.func.attr == "append" and isinstance(n.value.func.value, ast.Name):
+                    accs.add(n.value.func.value.id)
+        if len(accs) != 1 or list(accs)[0] not in self.locals:
+            raise Unsupported(f"{where}: the loop body updates {sorted(accs)}; exactly one local declared before the "
+                              "loop may be updated")
+        return list(accs)[0]
+
+    def _fold_seq(self, stmts, acc, where):
+        """the value of the accumulator after `stmts`, as a Lean expression in which `acc` is its value before"""
+        a, ta = lean_ident(acc), self.locals[acc]
+        steps = []
+        for b in stmts:
+            w = f"{self.fn.name}:{b.lineno}"
+            if isinstance(b, ast.Pass) or self._is_ignored_call(b):
+                continue
+            if isinstance(b, ast.AugAssign) and isinstance(b.target, ast.Name) and b.target.id == acc:
+                t, ty = self.expr(b.value, False)
+                steps.append(self._aug(a, ta, b.op, t, ty, w))
+            elif isinstance(b, ast.Assign) and len(b.targets) == 1 and isinstance(b.targets[0], ast.Name) \
+                    and b.targets[0].id == acc:
+                t, ty = self.expr(b.value, False)
+                if ty != ta:
+                    raise Unsupported(f"{w}: {acc!r} changes its type from {ta} to {ty}")
+                steps.append(t)
+            elif isinstance(b, ast.Expr) and isinstance(b.value, ast.Call) and isinstance(b.value.func, ast.Attribute) \
+                    and b.value.func.attr == "append" and isinstance(b.value.func.value, ast.Name) \
+                    and b.value.func.value.id == acc and len(b.value.args) == 1 and not b.value.keywords:
+                t, ty = self.expr(b.value.args[0], False)
+                if elem_type(ta) != ty:
+                    raise Unsupported(f"{w}: a {ty} appended to a {ta}")
+                steps.append(f"({a} ++ [{t}])")
+            elif isinstance(b, ast.If):
+                c = self.cond(b.test, False)
+                steps.append(f"(if {c} then {self._fold_seq(b.body, acc, where)} else "
+                             f"{self._fold_seq(b.orelse, acc, where) if b.orelse else a})")
+            else:
+                raise Unsupported(f"{w}: statement `{ast.unparse(b)[:60]}` in an accumulating loop")
+        if not steps:
+            return a
+        if len(steps) == 1:
+            return steps[0]
+        return "(" + "".join(f"let {a} : {lean_type(ta)} := {e}; " for e in steps) + a + ")"
+
+    def _for_unrolled(self, s, depth, top, where):
+        """`for a, b in [(e1, e2), …]:` over a literal list: the body once per element, the targets replaced by the
+        element's expressions (which the body must not assign)"""
+        import copy
+        if s.orelse or any(isinstance(n, (ast.Break, ast.Continue)) for n in ast.walk(s)):
+            raise Unsupported(f"{where}: break / continue / else in a loop over a literal list")
+        tgts = [s.target] if isinstance(s.target, ast.Name) else list(s.target.elts) if isinstance(s.target, ast.Tuple) else None
+        if tgts is None or not all(isinstance(t, ast.Name) and t.id in self.loopvars for t in tgts):
+            raise Unsupported(f"{where}: loop target `{ast.unparse(s.target)}`")
+        names = [t.id for t in tgts]
+        outside = [x for x in ast.walk(self.fn) if isinstance(x, ast.Name) and x.id in names]
+        inside = {id(x) for x in ast.walk(s)}
+        if any(id(x) not in inside for x in outside):
+            raise Unsupported(f"{where}: the loop variables {names} are used after the loop")
+        stored = {x.id for b in s.body for x in ast.walk(b) if isinstance(x, ast.Name) and isinstance(x.ctx, ast.Store)}
+        done = False
+        for el in s.iter.elts:
+            vals = [el] if isinstance(s.target, ast.Name) else list(el.elts) if isinstance(el, ast.Tuple) else None
+            if vals is None or len(vals) != len(names):
+                raise Unsupported(f"{where}: element `{ast.unparse(el)}` does not match the loop target")
+            for v in vals:
+                if not isinstance(v, (ast.Name, ast.Constant)):
+                    raise Unsupported(f"{where}: element `{ast.unparse(v)}` (names and constants only)")
+                if isinstance(v, ast.Name) and v.id in stored:
+                    raise Unsupported(f"{where}: the loop body assigns {v.id!r}, which the loop runs over")
+            env = dict(zip(names, vals))
+
+            class T(ast.NodeTransformer):
+                def visit_Name(self, n):
+                    if n.id in env:
+                        if not isinstance(n.ctx, ast.Load):
+                            raise Unsupported(f"{where}: assignment to the loop variable {n.id!r}")
+                        return copy.deepcopy(env[n.id])
+                    return n
+
+                def visit_FormattedValue(self, n):
+                    self.generic_visit(n)
+                    return n
+            for b in s.body:
+                if done:
+                    raise Unsupported(f"{self.fn.name}:{b.lineno}: statement after a return")
+                b2 = ast.fix_missing_locations(T().visit(copy.deepcopy(b)))
+                done = self.stmt(b2, depth, top)
+        return done
+
+
+def _dotted(node):
+    """`a.b.c` for a Name / Attribute chain, else None"""
+    parts = []
+    while isinstance(node, ast.Attribute):
+        parts.append(node.attr)
+        node = node.value
+    if isinstance(node, ast.Name):
+        return ".".join([node.id] + parts[::-1])
+    return None
+
+
+HARMLESS_FUNCS = {"os.path.dirname", "str", "len"}
+
+
+def _harmless(node):
+    """an expression that only builds a message: names, attributes, constants, f-strings, conditional expressions,
+    `"sep".join(name)` and a few pure library calls"""
+    for n in ast.walk(node):
+        if isinstance(n, (ast.Constant, ast.JoinedStr, ast.FormattedValue, ast.Name, ast.Attribute, ast.Load, ast.IfExp)):
+            continue
+        if isinstance(n, ast.Call) and not n.keywords:
+            f = n.func
+            if isinstance(f, ast.Attribute) and f.attr == "join" and isinstance(f.value, ast.Constant) \
+                    and isinstance(f.value.value, str) and len(n.args) == 1:
+                continue
+            if _dotted(f) in HARMLESS_FUNCS:
+                continue
+        return False
+    return True
 
 
 def _terminates(stmts):
     if not stmts:
         return False
     s = stmts[-1]
-    if isinstance(s, ast.Return):
+    if isinstance(s, (ast.Return, ast.Raise)):
         return True
     if isinstance(s, ast.If):
         return bool(s.orelse) and _terminates(s.body) and _terminates(s.orelse)
+    if isinstance(s, ast.With):
+        return _terminates(s.body)
     return False
 
 
 def _opaque_ok(node):
-    """an opaque right-hand side may only consist of names, attributes, constant subscripts and method calls on them"""
+    """an opaque right-hand side may only consist of names, attributes, constant subscripts and method calls on them
+    (and a conditional expression choosing between such)"""
     for n in ast.walk(node):
-        if not isinstance(n, (ast.Name, ast.Attribute, ast.Subscript, ast.Call, ast.Constant, ast.Load)):
+        if not isinstance(n, (ast.Name, ast.Attribute, ast.Subscript, ast.Call, ast.Constant, ast.Load, ast.IfExp)):
             return False
     return True
 
@@ -525,23 +1504,37 @@ def translate(fn, spec, consts=None):
     tr = _Fn(fn, spec, consts or {})
     done = tr.block(fn.body, 0, top=True)
     if not done:
-        raise Unsupported(f"{fn.name}: a path reaches the end of the function without a return (Python returns None)")
+        if spec.ret != "unit":
+            raise Unsupported(f"{fn.name}: a path reaches the end of the function without a return (Python returns None)")
+        tr.emit(0, "return ()")
     unused = sorted(set(range(len(spec.blocks))) - tr.uses["blocks"])
     if unused:
         raise Unsupported(f"{fn.name}: pinned block(s) {unused} do not occur as branch bodies any more")
+    unused = sorted(set(range(len(spec.assign_blocks))) - tr.uses["assign_blocks"])
+    if unused:
+        raise Unsupported(f"{fn.name}: pinned assigning block(s) {unused} do not occur as branch bodies any more")
+    if set(spec.stmts) - tr.uses["stmts"]:
+        raise Unsupported(f"{fn.name}: {len(set(spec.stmts) - tr.uses['stmts'])} pinned statement(s) do not occur any more")
+    unused = sorted(set(range(len(spec.raises))) - tr.uses["raises"])
+    if unused:
+        raise Unsupported(f"{fn.name}: declared exception(s) {[spec.raises[i][:2] for i in unused]} are not raised any more")
     binders = " ".join(f"({lean_ident(n) if n.isidentifier() else n} : {t})" for n, t in spec.binders)
     rett = lean_type(spec.ret)
     if spec.monad == "except":
         head = f"def {spec.lean_name} {binders} : Except Err ({rett}) := do"
-    else:
+    elif spec.monad == "pure":
         head = f"def {spec.lean_name} {binders} : {rett} := Id.run do"
+    else:
+        head = f"def {spec.lean_name} {binders} : {spec.monad} ({rett}) := do"
     import copy
     shown = copy.deepcopy(fn)
     if shown.body and isinstance(shown.body[0], ast.Expr) and isinstance(shown.body[0].value, ast.Constant) \
             and isinstance(shown.body[0].value.value, str) and len(shown.body) > 1:
         shown.body = shown.body[1:]                      # the docstring is not part of the meaning
     src = ast.unparse(shown).replace("-/", "- /").replace("/-", "/ -")
-    out = []
+    out = list(spec.prelude)
+    if spec.prelude:
+        out.append("")
     if spec.doc:
         out.append("/-- " + spec.doc.replace("-/", "- /") + " -/")
     out.append(head)
@@ -657,13 +1650,26 @@ HARNESS_SHAPE_SPEC = Spec(
     doc="`shape_of` of harness/travlib.py: the `shape=` field of the static node lines the harness exports to drv_trav")
 
 
+OCCUPIED_SPEC = Spec(
+    "genIsOccupied",
+    binders=[("mct", "Option Int"), ("maxTries", "Option Int"), ("started", "Int → Bool")],
+    params={"worker": None}, ret="bool", monad="pure",
+    calls={"self.params.get_numeric('max_concurrent_tries', _1)": ("(mct.getD {1})", "int", "pure", ["int"]),
+           "self.params.get_numeric('max_tries', _1)": ("(maxTries.getD {1})", "int", "pure", ["int"]),
+           "self.is_started(_1, _2)": ("(started {2})", "bool", "pure", ["_", "int"])},
+    doc="`TestNode.is_occupied` of avocado_i2n/cartgraph/node.py: the threshold computation.  `mct` / `maxTries` = the "
+        "integer value of the parameters `max_concurrent_tries` / `max_tries` of this copy (none = not set), "
+        "`started t` = `self.is_started(worker, t)`")
+
+
 def scope_source(node_path=None, travlib_path=None):
     node_path = node_path or _src("PYGEN_NODE_SRC", "avocado_i2n/cartgraph/node.py")
     travlib_path = travlib_path or os.environ.get("PYGEN_TRAVLIB_SRC") or \
         os.path.join(os.path.dirname(os.path.abspath(__file__)), "travlib.py")
     defs = [generate(node_path, "TestNode.is_started", _scope_spec("started")),
             generate(node_path, "TestNode.is_finished", _scope_spec("finished")),
-            generate(travlib_path, "shape_of", HARNESS_SHAPE_SPEC)]
+            generate(travlib_path, "shape_of", HARNESS_SHAPE_SPEC),
+            generate(node_path, "TestNode.is_occupied", OCCUPIED_SPEC)]
     return render_file("harness/pygen.py:extract_scope (called by harness/props/c04.py:extract) from "
                        "avocado_i2n/cartgraph/node.py and harness/travlib.py", [], "I2N.Extracted.GenScope", [], defs)
 
@@ -686,18 +1692,336 @@ POOL_SPEC = Spec(
     doc="`SourcedStateBackend.get_source_scope` of avocado_i2n/states/pool.py, translated branch by branch")
 
 
+_SOURCE_PARAMS = "(params.object_params(source.split(':')[0]) if source.split(':')[0] else params)"
+
+PROXIMITY_SPEC = Spec(
+    "genProximity",
+    binders=[("e", "Env"), ("s", "Src")],
+    params={"source": None}, ret="int", monad="pure",
+    atoms={"params['nets_gateway']": ("e.gateway", "str"),
+           _SOURCE_PARAMS + "['nets_gateway']": ("(e.srcGateway s)", "str"),
+           "params['nets_host']": ("e.host", "str"),
+           _SOURCE_PARAMS + "['nets_host']": ("(e.srcHost s)", "str"),
+           "params['swarm_pool']": ("e.swarmPool", "str"),
+           "source.split(':')[1]": ("s.path", "str")},
+    doc="`proximity`, the sort key inside `SourcedStateBackend.get_sources` of avocado_i2n/states/pool.py (`source` = "
+        "`s.net + ':' + s.path`; `source_params` = the parameters of the source's net, or the own ones)")
+
+
 def pool_source(path=None):
     path = path or _src("PYGEN_POOL_SRC", "avocado_i2n/states/pool.py")
-    d = generate(path, "SourcedStateBackend.get_source_scope", POOL_SPEC)
+    defs = [generate(path, "SourcedStateBackend.get_source_scope", POOL_SPEC),
+            generate(path, "SourcedStateBackend.get_sources.proximity", PROXIMITY_SPEC)]
     return render_file("harness/pygen.py:extract_pool (called by harness/props/c13.py:extract) from "
-                       "avocado_i2n/states/pool.py", ["I2N.Model.Pool"], "I2N.Extracted.GenPool", ["I2N.Pool"], [d])
+                       "avocado_i2n/states/pool.py", ["I2N.Model.Pool"], "I2N.Extracted.GenPool", ["I2N.Pool"], defs)
 
 
 def extract_pool(ctx=None):
     return write_if_changed(_lean_path("GenPool.lean"), pool_source())
 
 
+
+# ---- TestNode.should_rerun / shared_filtered_results (C10) ---------------------------------------------------------------
+
+RULES_PRELUDE = [
+    "/-- `params.get_numeric(key, default)` = `int(params.get(key, default))` for an integer default; a value that `int()`",
+    "rejects is Python's ValueError -/",
+    "def getNumeric (o : Option String) (dflt : Int) : Except Err Int :=",
+    "  match o with",
+    "  | none => pure dflt",
+    "  | some s => match parseInt s with",
+    "    | some m => pure m",
+    "    | none => throw Err.badTries",
+    "",
+    "/-- `worker.id` / `self.started_worker.swarm_id` … where Python evaluates them (behind `worker and …`) -/",
+    "def idOf (w : Option Worker) : String := (w.map (·.id)).getD \"\"",
+    "def swarmOf (w : Option Worker) : String := (w.map (·.swarmId)).getD \"\"",
+]
+
+RERUN_ELSE_BLOCK = (
+    "old_started_worker = self.started_worker\n"
+    "self.started_worker = old_started_worker or worker\n"
+    "test_statuses = [r[\"status\"].lower() for r in self.shared_filtered_results]\n"
+    "self.started_worker = old_started_worker\n")
+
+RERUN_SPEC = Spec(
+    "genShouldRerun",
+    binders=[("c", "Cfg"), ("w", "Option Worker"), ("shared", "List Result")],
+    params={"worker": ("w.isSome", "bool")},
+    ret="bool", monad="except",
+    atoms={
+        "self.params.get('dry_run', 'no')": ("(c.dryRun.getD \"no\")", "str"),
+        "self.is_flat()": ("c.flat", "bool"),
+        "len(self.cloned_nodes) > 0": ("c.cloneSource", "bool"),
+        "worker.id": ("(idOf w)", "str"),
+        "self.params['name']": ("c.name", "str"),
+        "self.params.get('replay')": ("(truthy c.replay)", "bool"),
+        "self.params.get_list('rerun_status', 'fail,error,warn', delimiter=',')":
+            ("(getListChar ',' \"fail,error,warn\" c.rerunStatus)", "slist"),
+        "self.params.get_list('rerun_status', [])": ("(getListWs c.rerunStatus)", "slist"),
+        "self.params.get_list('stop_status', [])": ("(getListWs c.stopStatus)", "slist"),
+        "len(self.get_stateful_objects()) == 0": ("(!c.stateful)", "bool"),
+        "self.shared_results": ("shared", ("list", "Result")),
+    },
+    calls={"self.params.get_numeric('max_tries', _1)": ("getNumeric c.maxTries {1}", "int", "raises", ["int"])},
+    fields={("Result", "['status']"): ("{0}.status", "str")},
+    assign_blocks=[(RERUN_ELSE_BLOCK, "test_statuses",
+                    "((genFilteredResults c (c.startedWorker <|> w) shared).map (fun r => lower r.status))", "slist")],
+    raises=[("RuntimeError", "Worker {} should not consider rerunning", "Err.runtimeError"),
+            ("ValueError", "Value of rerun status must be a valid test status", "Err.badRerunStatus"),
+            ("ValueError", "Value of stop status must be a valid test status", "Err.badStopStatus"),
+            ("ValueError", "Number of max_tries cannot be less than zero", "Err.negativeTries")],
+    ignored_calls={"logging.debug", "logging.info", "logging.warning"},
+    prelude=RULES_PRELUDE,
+    doc="`TestNode.should_rerun` of avocado_i2n/cartgraph/node.py, translated statement by statement (`w.isSome` = a "
+        "worker was given; the body of the stateful branch is pinned verbatim and stands for the filtered statuses)")
+
+FILTERED_SPEC = Spec(
+    "genFilteredResults",
+    binders=[("c", "Cfg"), ("started", "Option Worker"), ("shared", "List Result")],
+    params={}, ret=("list", "Result"), monad="pure",
+    atoms={
+        "self.shared_results": ("shared", ("list", "Result")),
+        "self.started_worker": ("started.isSome", "bool"),
+        "'swarm' in self.params['pool_scope']": ("(isSubstr \"swarm\" c.poolScope)", "bool"),
+        "'cluster' in self.params['pool_scope']": ("(isSubstr \"cluster\" c.poolScope)", "bool"),
+        "self.params.get('nets_spawner')": ("c.netsSpawner", "optstr"),
+        "self.started_worker.swarm_id": ("(swarmOf started)", "str"),
+        "self.started_worker.id": ("(idOf started)", "str"),
+    },
+    fields={("Result", "['name']"): ("{0}.name", "str")},
+    local_types={"results": ("list", "Result")},
+    doc="`TestNode.shared_filtered_results` of avocado_i2n/cartgraph/node.py (`started` = `self.started_worker`)")
+
+
+RUN_PRELUDE = [
+    "/-- `self.should_rerun(worker)` inside `default_run_decision`: the state is whether the instance attribute",
+    "`should_rerun` has been replaced by `lambda _: False` -/",
+    "def rerunM (c : Cfg) (w : Worker) (shared : List Result) : StateT Bool (Except Err) Bool :=",
+    "  fun disabled => if disabled then .ok (false, disabled) else (genShouldRerun c (some w) shared).map (fun b => (b, disabled))",
+]
+
+RUN_SPEC = Spec(
+    "genDefaultRunDecision",
+    binders=[("c", "Cfg"), ("w", "Worker"), ("shared", "List Result"), ("finished", "Bool"), ("scanRun", "Bool")],
+    params={"worker": None}, ret="bool", monad="StateT Bool (Except Err)",
+    atoms={
+        "self.params.get('dry_run', 'no')": ("(c.dryRun.getD \"no\")", "str"),
+        "self.is_flat()": ("c.flat", "bool"),
+        "len(self.cloned_nodes) > 0": ("c.cloneSource", "bool"),
+        "worker.id": ("w.id", "str"),
+        "self.params['name']": ("c.name", "str"),
+        "len(self.get_stateful_objects()) == 0": ("(!c.stateful)", "bool"),
+        "len(self.shared_results) == 0": ("shared.isEmpty", "bool"),
+        "len(self.shared_filtered_results) == 0": ("(genFilteredResults c c.startedWorker shared).isEmpty", "bool"),
+        "self.is_finished(worker, 1)": ("finished", "bool"),
+        "self.scan_states()": ("scanRun", "bool"),
+        "self.should_rerun(worker)": ("rerunM c w shared", "bool", "raises"),
+    },
+    stmts={"self.should_rerun = lambda _: False": "set true"},
+    raises=[("RuntimeError", "Worker {} should not try to run", "Err.runtimeError")],
+    ignored_calls={"logging.debug", "logging.info", "logging.warning"},
+    prelude=RUN_PRELUDE,
+    doc="`TestNode.default_run_decision` of avocado_i2n/cartgraph/node.py.  `finished` = `self.is_finished(worker, 1)`, "
+        "`scanRun` = the outcome of `self.scan_states()`; the state of the monad is whether `self.should_rerun` has been "
+        "replaced by `lambda _: False`")
+
+
+def rules_source(path=None):
+    path = path or _src("PYGEN_NODE_SRC", "avocado_i2n/cartgraph/node.py")
+    defs = [generate(path, "TestNode.shared_filtered_results", FILTERED_SPEC),
+            generate(path, "TestNode.should_rerun", RERUN_SPEC),
+            generate(path, "TestNode.default_run_decision", RUN_SPEC)]
+    defs[0] = RULES_PRELUDE + [""] + defs[0]
+    defs[1] = defs[1][len(RULES_PRELUDE) + 1:]
+    return render_file("harness/pygen.py:extract_rules (called by harness/props/c10.py:extract) from "
+                       "avocado_i2n/cartgraph/node.py", ["I2N.Model.Rules"], "I2N.Extracted.GenRules", ["I2N.Rules"], defs)
+
+
+def extract_rules(ctx=None):
+    return write_if_changed(_lean_path("GenRules.lean"), rules_source())
+
+
+# ---- TransferOps: compare-then-copy decisions (C14) ------------------------------------------------------------------
+
+TRANSFER_PRELUDE = [
+    "/-- the state of the translated functions: the file system; `os` / `shutil` calls either read it or replace it -/",
+    "abbrev M := StateT FS (Except Err)",
+    "def readFS {α : Type} (f : FS → α) : M α := fun fs => .ok (f fs, fs)",
+    "def stepFS (f : FS → Except Err FS) : M Unit := fun fs => (f fs).map (fun fs' => ((), fs'))",
+    "",
+    "/-- `crypto.hash_file(path, size, \"md5\")` of an existing file: what the digest depends on (md5 is assumed collision",
+    "free on it, as in `I2N.Transfer.digest`); `noHash` is the `\"\"` the code uses for a missing file -/",
+    "def hashFile (size : Int) (fs : FS) (p : Path) : Option Data := some (((read fs p).getD []).take size.toNat)",
+    "def noHash : Option Data := none",
+]
+
+_T_PARAMS = {"cache_path": ("cache", "str"), "pool_path": ("pool", "str"), "params": None}
+_T_LOGS = {"logging.info", "logging.warning", "logging.debug", "os.makedirs"}
+_T_READS = {"os.path.islink(_1)": ("readFS (fun fs => islink fs {1})", "bool", "reads", ["str"]),
+            "os.path.exists(_1)": ("readFS (fun fs => pexists fs {1})", "bool", "reads", ["str"])}
+_T_ACTIONS = {"shutil.copy(_1, _2)": ("stepFS (fun fs => copy fs {1} {2})", "unit", "action", ["str", "str"]),
+              "os.unlink(_1)": ("stepFS (fun fs => unlink fs {1})", "unit", "action", ["str"]),
+              "os.symlink(_1, _2)": ("stepFS (fun fs => symlink fs {1} {2})", "unit", "action", ["str", "str"])}
+_T_BINDERS = [("cache", "Path"), ("pool", "Path")]
+
+
+def _transfer_specs():
+    M = "M"
+    compare_local = Spec(
+        "genCompareLocal", [("fs", "FS")] + _T_BINDERS, _T_PARAMS, ret="bool", monad="pure",
+        calls={"os.path.exists(_1)": ("(pexists fs {1})", "bool", "pure", ["str"]),
+               "crypto.hash_file(_1, _2, 'md5')": ("(hashFile {2} fs {1})", "Option Data", "pure", ["str", "int"])},
+        atoms={"''": ("noHash", "Option Data")},
+        type_defaults={"Option Data": "none"}, prelude=TRANSFER_PRELUDE,
+        doc="`TransferOps.compare_local` of avocado_i2n/states/pool.py on the file system `fs`")
+    compare_link = Spec(
+        "genCompareLink", [("fs", "FS")] + _T_BINDERS, _T_PARAMS, ret="bool", monad="pure",
+        calls={"os.path.islink(_1)": ("(islink fs {1})", "bool", "pure", ["str"]),
+               "os.path.realpath(_1)": ("(resolve fs {1})", "str", "pure", ["str"]),
+               "TransferOps.compare_local(_1, _2, _3)": ("(genCompareLocal fs {1} {2})", "bool", "pure", ["str", "str", "_"])},
+        doc="`TransferOps.compare_link` (`os.path.realpath` follows one level: flat file systems, see I2N.Transfer)")
+    cmp_local = {"TransferOps.compare_local(_1, _2, _3)":
+                 ("readFS (fun fs => genCompareLocal fs {1} {2})", "bool", "reads", ["str", "str", "_"])}
+    cmp_link = {"TransferOps.compare_link(_1, _2, _3)":
+                ("readFS (fun fs => genCompareLink fs {1} {2})", "bool", "reads", ["str", "str", "_"])}
+    download_local = Spec(
+        "genDownloadLocal", _T_BINDERS, _T_PARAMS, ret="unit", monad=M, calls=dict(cmp_local, **_T_ACTIONS),
+        ignored_calls=_T_LOGS, transparent_with={"image_lock"},
+        doc="`TransferOps.download_local`: what one undisturbed process does inside `image_lock` (the lock protocol is "
+            "modelled separately, directories are not modelled)")
+    upload_local = Spec(
+        "genUploadLocal", _T_BINDERS, _T_PARAMS, ret="unit", monad=M, calls=dict(cmp_local, **_T_ACTIONS),
+        ignored_calls=_T_LOGS, transparent_with={"image_lock"}, doc="`TransferOps.upload_local`")
+    delete_local = Spec(
+        "genDeleteLocal", [("pool", "Path")], {"pool_path": ("pool", "str"), "params": None}, ret="unit", monad=M,
+        calls=dict(_T_ACTIONS), ignored_calls=_T_LOGS, transparent_with={"image_lock"}, doc="`TransferOps.delete_local`")
+    download_link = Spec(
+        "genDownloadLink", _T_BINDERS, _T_PARAMS, ret="unit", monad=M,
+        calls=dict(cmp_link, **_T_READS, **_T_ACTIONS), ignored_calls=_T_LOGS, transparent_with={"image_lock"},
+        raises=[("RuntimeError", "Cannot link to {}, {} data exists", "Err.runtimeError")],
+        doc="`TransferOps.download_link`")
+    upload_link = Spec(
+        "genUploadLink", _T_BINDERS, _T_PARAMS, ret="unit", monad=M,
+        calls=dict(_T_READS, **{"TransferOps.upload_local(_1, _2, _3)":
+                                ("genUploadLocal {1} {2}", "unit", "action", ["str", "str", "_"])}),
+        raises=[("ValueError", "Cannot upload a symlink to its destination", "Err.valueError")],
+        doc="`TransferOps.upload_link`")
+    return [("compare_local", compare_local), ("compare_link", compare_link), ("download_local", download_local),
+            ("upload_local", upload_local), ("delete_local", delete_local), ("download_link", download_link),
+            ("upload_link", upload_link)]
+
+
+
+_T_DISPATCH_PRELUDE = [
+    "/-- `hosts, path = pool_path.split(\":\")` on the model's own splitter -/",
+    "def splitColonStr (s : String) : List String := (splitColon s.toList).map String.ofList",
+    "/-- `s.replace(c, \"\")` -/",
+    "def pyRemoveChar (c : Char) (s : String) : String := String.ofList (s.toList.filter (· != c))",
+    "/-- `cls.<op>_remote(...)`: remote transfers are outside the model -/",
+    "def remoteM : M Unit := throw Err.notModelled",
+]
+
+
+def _dispatch_spec(op, first=False):
+    """`TransferOps.download / upload / delete`: the choice between remote, link and local mode"""
+    two = op != "delete"
+    args = "_1, _2, _3" if two else "_1, _2"
+    types = ["str", "str", "_"] if two else ["str", "_"]
+    fill = "{1} {2}" if two else "{1}"
+    gen = {"download": ("genDownloadLink", "genDownloadLocal"), "upload": ("genUploadLink", "genUploadLocal"),
+           "delete": ("genDeleteLocal", "genDeleteLocal")}[op]
+    calls = {f"cls.{op}_remote({args})": ("remoteM", "unit", "action", types),
+             f"cls.{op}_link({args})": (f"{gen[0]} {fill}", "unit", "action", types),
+             f"cls.{op}_local({args})": (f"{gen[1]} {fill}", "unit", "action", types)}
+    params = dict(_T_PARAMS) if two else {"pool_path": ("pool", "str"), "params": None}
+    return Spec("gen" + op.capitalize(), _T_BINDERS if two else [("pool", "Path")], params, ret="unit", monad="M",
+                atoms={"pool_path.split(':')": ("(splitColonStr pool)", "slist")}, calls=calls,
+                prims={"substr": "I2N.Rules.isSubstr"}, unpack_error="Err.valueError",
+                prelude=_T_DISPATCH_PRELUDE if first else (),
+                doc=f"`TransferOps.{op}`: `hosts:path`, a `;` in the path selects link mode (here `pool` is the whole "
+                    "location string)")
+
+
+def transfer_source(path=None):
+    path = path or _src("PYGEN_POOL_SRC", "avocado_i2n/states/pool.py")
+    defs = [generate(path, "TransferOps." + name, spec) for name, spec in _transfer_specs()]
+    defs += [generate(path, "TransferOps." + op, _dispatch_spec(op, first=(op == "download")))
+             for op in ("download", "upload", "delete")]
+    return render_file("harness/pygen.py:extract_transfer (called by harness/props/c14.py:extract) from "
+                       "avocado_i2n/states/pool.py", ["I2N.Model.Transfer", "I2N.Model.Rules"], "I2N.Extracted.GenTransfer",
+                       ["I2N.Transfer"], defs)
+
+
+def extract_transfer(ctx=None):
+    return write_if_changed(_lean_path("GenTransfer.lean"), transfer_source())
+
+
+# ---- TestNode.default_clean_decision (C05): the tests in front of the "close the door" loop ---------------------------
+
+CLEAN_DOOR_BLOCK = (
+    'for picked_worker in self.shared_involved_workers:\n'
+    "    if worker.swarm_id != 'localhost' and worker.swarm_id not in picked_worker.id:\n"
+    '        continue\n'
+    "    if self.is_flat() or picked_worker.id in self.params['name']:\n"
+    '        picked_node = self\n'
+    '    else:\n'
+    '        for node in self.bridged_nodes:\n'
+    "            if picked_worker.id in node.params['name']:\n"
+    '                picked_node = node\n'
+    '                break\n'
+    '        else:\n'
+    "            raise ValueError(f'Cannot identify picked node for involved worker {picked_worker} instead of the composite {self} to consider for cleanup')\n"
+    '    if not picked_node.is_cleanup_ready(picked_worker):\n'
+    "        logging.debug(f'Node is not cleanup ready for {picked_worker.id}')\n"
+    '        return False\n'
+    "    test_statuses = [r['status'].lower() for r in picked_node.results]\n"
+    "    if 'unknown' in test_statuses:\n"
+    "        logging.debug(f'A worker {picked_worker.id} is still running node which cannot yet be reversed')\n"
+    '        return False\n'
+    'return self.is_finished(worker, -1)\n'
+)
+
+_OBJ_PARAMS = "test_object.object_typed_params(self.params)"
+
+
+def _clean_spec(node_path):
+    return Spec(
+        "genCleanDecision",
+        binders=[("dryRun", "Bool"), ("flat", "Bool"), ("cloneSource", "Bool"), ("idIn", "Bool"), ("objs", "List String"),
+                 ("imagesMode", "String → String"), ("vmsMode", "String → String"), ("door", "Except String Bool")],
+        params={"worker": None}, ret="bool", monad="Except String",
+        atoms={"self.params.get('dry_run', 'no') == 'yes'": ("dryRun", "bool"),
+               "self.is_flat()": ("flat", "bool"),
+               "len(self.cloned_nodes) > 0": ("cloneSource", "bool"),
+               "worker.id in self.params['name']": ("idIn", "bool"),
+               "self.objects": ("objs", "slist"),
+               f"{_OBJ_PARAMS}.get('unset_mode_images', {_OBJ_PARAMS}['unset_mode'])[0]": ("(imagesMode test_object)", "str"),
+               f"{_OBJ_PARAMS}.get('unset_mode_vms', {_OBJ_PARAMS}['unset_mode'])[0]": ("(vmsMode test_object)", "str")},
+        blocks=[(CLEAN_DOOR_BLOCK, "(← door)", "bool")],
+        raises=[("RuntimeError", "Worker {} should not try to clean", '"RuntimeError"')],
+        ignored_calls={"logging.debug", "logging.info"},
+        doc="`TestNode.default_clean_decision` of avocado_i2n/cartgraph/node.py: the tests in front of the loop over the "
+            "involved workers.  `objs` = the node's objects, `imagesMode o` / `vmsMode o` = the first character of "
+            "`unset_mode_images` / `unset_mode_vms` (default `unset_mode`) of object `o`, `door` = the pinned loop "
+            "(what it returns or raises)")
+
+
+def clean_source(path=None):
+    path = path or _src("PYGEN_NODE_SRC", "avocado_i2n/cartgraph/node.py")
+    d = generate(path, "TestNode.default_clean_decision", _clean_spec(path))
+    return render_file("harness/pygen.py:extract_clean (called by harness/props/c05.py:extract) from "
+                       "avocado_i2n/cartgraph/node.py", [], "I2N.Extracted.GenClean", [], [d])
+
+
+def extract_clean(ctx=None):
+    return write_if_changed(_lean_path("GenClean.lean"), clean_source())
+
+
+SOURCES = {"tunnel": tunnel_source, "scope": scope_source, "pool": pool_source, "rules": rules_source,
+           "transfer": transfer_source, "clean": clean_source}
+
 if __name__ == "__main__":
     import sys
-    for name in sys.argv[1:] or ["tunnel", "scope", "pool"]:
-        print({"tunnel": tunnel_source, "scope": scope_source, "pool": pool_source}[name]())
+    for name in sys.argv[1:] or list(SOURCES):
+        print(SOURCES[name]())
